@@ -1,31 +1,44 @@
 /*
  * C12 - pack/unpack never leaves the buffer, fails stickily, fixed byte order.
  *
- * Bounded-exhaustive enumeration (engine C) over the real pack.c:
+ * Bounded-exhaustive enumeration over the real pack.c (linked as an object of its
+ * own: `lib=['pack.c']`; only <librfn/pack.h> is included here, so nothing of this
+ * file can clash with a name inside pack.c, and every static pack.c may grow is
+ * reset before each case / saved with each frame).
  *
- *  phase 1 (sequences)  buffer sizes 0..9, each flush against a PROT_NONE page
- *      (right-aligned: over-runs fault; second pass left-aligned: under-runs
- *      fault, over-writes hit a canary), every sequence of length <= 4 (quick)
- *      / <= 5 (thorough) over the alphabet of IMPLEMENTED operations with
- *      boundary-value arguments.  Depth-first with an explicit stack and
- *      iterative deepening (so the first counterexample of a partition is a
- *      shortest one); every call is compared with the model.
- *  phase 2 (value sweeps)  every 8/16-bit value through each 8/16-bit packer /
- *      unpacker, every byte pattern in each byte lane of the 32-bit ones (all
- *      lane pairs in the thorough tier), each at exact fit, one byte short,
- *      and at offset 1; pack -> rewind -> unpack round trips for every
- *      packer/unpacker pair of equal width and byte order.
+ * One engine executes every call on the real code and on a model (expected memory
+ * image of "watch windows" + unbounded cursor + current buffer size) and compares
+ * after EVERY call: memory (buffer and the bytes beside it), returned value (0 on
+ * overflow), destination array (copy / zero-filled on overflow / untouched outside),
+ * rf_pack_consumed, rf_pack_remaining.  A fault (guard page, assert, endless loop)
+ * during a call is a violation as well.  The buffer lies flush against an
+ * inaccessible page (R: its end, L: its start); in the AddressSanitizer build (A) it
+ * is an exactly-sized region inside an otherwise poisoned arena and every ASan report
+ * that names an address of that arena is a violation (reads included).
  *
- * Model: byte vector + unbounded cursor.  Oracle after EVERY call: buffer
- * image, canary bytes beside the buffer (one 32-byte window compare), returned value (0 on overflow),
- * destination array (copy / zero-filled on overflow / untouched for NULL and
- * outside [0,sz)), rf_pack_consumed, rf_pack_remaining.  A fault (guard page,
- * assert) during a call is a violation as well.
+ * Families (each a bounded-exhaustive product; bounds in bin/checks.d/C12.py):
+ *  seq     all call sequences up to a length over the alphabet of implemented
+ *          operations with boundary arguments, buffer sizes 0..9   (depth first,
+ *          iterative deepening, so the first counterexample is a shortest one)
+ *  sweep   every 8/16-bit value, every byte-lane pattern of 32-bit values through
+ *          every scalar operation at and around exact fit, with round trips
+ *  runs    all sequences of pack_bytes/unpack_bytes with EVERY run length 0..17
+ *          (real array and NULL) and rewind, buffer sizes 0..36
+ *  src     source arrays with every byte value (0x00 included) at every position
+ *          of every run length 1..17, packed and read back
+ *  reinit  rf_pack_init again on the same rf_pack_t and the same base with every
+ *          other size (smaller, equal, larger), after a prefix and before a suffix
+ *          of calls; the rf_pack_t starts zeroed or poisoned
+ *  mid     buffer sizes / run lengths / cursors on both sides of 2^7, 2^8, 2^15,
+ *          2^16 with real arrays (buffer modelled byte by byte)
+ *  wide    buffer sizes / cursors on both sides of EVERY power of two up to
+ *          2^31-1 inside a 2 GiB guard-paged mapping (NULL source/destination for
+ *          the long runs; memory watched at both edges and at the cursor)
  *
- * Which operations exist is decided at link time: every rf_pack_X / rf_unpack_X
- * declared in pack.h is referenced weakly, so an operation that pack.c does
- * not implement simply is not in the alphabet (and one that gets implemented
- * later joins it without touching this file).
+ * Which operations exist is decided without taking the address of anything that
+ * pack.h defines as a macro: a function-like macro counts as implemented and is
+ * simply called; everything else is referenced weakly, so an operation pack.c does
+ * not implement is not in the alphabet (and joins it when it gets implemented).
  */
 #include "vx.h"
 
@@ -54,23 +67,241 @@
 #pragma weak rf_unpack_u32be
 #pragma weak rf_unpack_u32le
 
-#include "pack.c"
+#include <librfn/pack.h>
 
+/* implemented?  a macro of that name: yes (never take its address); otherwise the weak reference decides */
+#ifdef rf_pack_bytes
+#define HAS_P_BYTES 1
+#else
+#define HAS_P_BYTES (rf_pack_bytes != NULL)
+#endif
+#ifdef rf_pack_char
+#define HAS_P_CHAR 1
+#else
+#define HAS_P_CHAR (rf_pack_char != NULL)
+#endif
+#ifdef rf_pack_s8
+#define HAS_P_S8 1
+#else
+#define HAS_P_S8 (rf_pack_s8 != NULL)
+#endif
+#ifdef rf_pack_u8
+#define HAS_P_U8 1
+#else
+#define HAS_P_U8 (rf_pack_u8 != NULL)
+#endif
+#ifdef rf_pack_s16be
+#define HAS_P_S16BE 1
+#else
+#define HAS_P_S16BE (rf_pack_s16be != NULL)
+#endif
+#ifdef rf_pack_s16le
+#define HAS_P_S16LE 1
+#else
+#define HAS_P_S16LE (rf_pack_s16le != NULL)
+#endif
+#ifdef rf_pack_u16be
+#define HAS_P_U16BE 1
+#else
+#define HAS_P_U16BE (rf_pack_u16be != NULL)
+#endif
+#ifdef rf_pack_u16le
+#define HAS_P_U16LE 1
+#else
+#define HAS_P_U16LE (rf_pack_u16le != NULL)
+#endif
+#ifdef rf_pack_s32be
+#define HAS_P_S32BE 1
+#else
+#define HAS_P_S32BE (rf_pack_s32be != NULL)
+#endif
+#ifdef rf_pack_s32le
+#define HAS_P_S32LE 1
+#else
+#define HAS_P_S32LE (rf_pack_s32le != NULL)
+#endif
+#ifdef rf_pack_u32be
+#define HAS_P_U32BE 1
+#else
+#define HAS_P_U32BE (rf_pack_u32be != NULL)
+#endif
+#ifdef rf_pack_u32le
+#define HAS_P_U32LE 1
+#else
+#define HAS_P_U32LE (rf_pack_u32le != NULL)
+#endif
+#ifdef rf_unpack_bytes
+#define HAS_U_BYTES 1
+#else
+#define HAS_U_BYTES (rf_unpack_bytes != NULL)
+#endif
+#ifdef rf_unpack_char
+#define HAS_U_CHAR 1
+#else
+#define HAS_U_CHAR (rf_unpack_char != NULL)
+#endif
+#ifdef rf_unpack_s8
+#define HAS_U_S8 1
+#else
+#define HAS_U_S8 (rf_unpack_s8 != NULL)
+#endif
+#ifdef rf_unpack_u8
+#define HAS_U_U8 1
+#else
+#define HAS_U_U8 (rf_unpack_u8 != NULL)
+#endif
+#ifdef rf_unpack_s16be
+#define HAS_U_S16BE 1
+#else
+#define HAS_U_S16BE (rf_unpack_s16be != NULL)
+#endif
+#ifdef rf_unpack_s16le
+#define HAS_U_S16LE 1
+#else
+#define HAS_U_S16LE (rf_unpack_s16le != NULL)
+#endif
+#ifdef rf_unpack_u16be
+#define HAS_U_U16BE 1
+#else
+#define HAS_U_U16BE (rf_unpack_u16be != NULL)
+#endif
+#ifdef rf_unpack_u16le
+#define HAS_U_U16LE 1
+#else
+#define HAS_U_U16LE (rf_unpack_u16le != NULL)
+#endif
+#ifdef rf_unpack_s32be
+#define HAS_U_S32BE 1
+#else
+#define HAS_U_S32BE (rf_unpack_s32be != NULL)
+#endif
+#ifdef rf_unpack_s32le
+#define HAS_U_S32LE 1
+#else
+#define HAS_U_S32LE (rf_unpack_s32le != NULL)
+#endif
+#ifdef rf_unpack_u32be
+#define HAS_U_U32BE 1
+#else
+#define HAS_U_U32BE (rf_unpack_u32be != NULL)
+#endif
+#ifdef rf_unpack_u32le
+#define HAS_U_U32LE 1
+#else
+#define HAS_U_U32LE (rf_unpack_u32le != NULL)
+#endif
+
+#ifndef lengthof
+#define lengthof(a) (sizeof(a) / sizeof((a)[0]))
+#endif
 #define BARRIER() __asm__ __volatile__("" ::: "memory")
 
-#define MAXN 9			/* largest buffer */
-#define AREA 64			/* bytes next to each guard page that we use */
-#define WIN 32			/* window = buffer + the canary bytes beside it, compared as a whole */
-#define MAXL 5			/* longest sequence of phase 1 */
+/* ------------------------------------------------- AddressSanitizer build (part c12asan) */
+
+#ifdef C12_ASAN
+#define ASAN_BUILD 1
+const char *__asan_default_options(void)
+{
+	return "halt_on_error=0:detect_leaks=0:print_summary=0:handle_segv=0:handle_sigbus=0:handle_sigfpe=0:handle_abort=0:"
+	       "detect_stack_use_after_return=0:allow_user_poisoning=1:suppress_equal_pcs=0:symbolize=0";
+}
+extern const char *__asan_get_report_description(void);
+extern void *__asan_get_report_address(void);
+extern int __asan_get_report_access_type(void);
+extern size_t __asan_get_report_access_size(void);
+extern void __asan_poison_memory_region(void const volatile *addr, size_t size);
+extern void __asan_unpoison_memory_region(void const volatile *addr, size_t size);
+static volatile int asan_errors; static volatile uint64_t asan_total;
+static void *volatile asan_addr; static volatile int asan_write; static volatile size_t asan_size; static char asan_kind[48];
+void __asan_on_error(void)
+{
+	asan_total++;
+	if (!asan_errors++) {
+		asan_addr = __asan_get_report_address(); asan_write = __asan_get_report_access_type();
+		asan_size = __asan_get_report_access_size();
+		snprintf(asan_kind, sizeof(asan_kind), "%s", __asan_get_report_description());
+	}
+}
+/* the harness itself reads and writes the poisoned bytes beside the buffer: not instrumented, and written so that the
+ * compiler cannot turn the loops into calls of the (intercepted) memcpy/memset/memcmp */
+#define RAW __attribute__((no_sanitize("address"), noinline))
+RAW static void raw_copy(void *d, const void *s, size_t n)
+{
+	uint8_t *dd = d; const uint8_t *ss = s;
+	for (; n >= 8; n -= 8, dd += 8, ss += 8) { uint64_t x; __builtin_memcpy(&x, ss, 8); BARRIER(); __builtin_memcpy(dd, &x, 8); }
+	for (; n; n--) { *dd++ = *ss++; BARRIER(); }
+}
+RAW static void raw_fill(void *d, int c, size_t n)
+{
+	uint8_t *dd = d; uint64_t x = 0x0101010101010101ULL * (uint8_t)c;
+	for (; n >= 8; n -= 8, dd += 8) { __builtin_memcpy(dd, &x, 8); BARRIER(); }
+	for (; n; n--) { *dd++ = (uint8_t)c; BARRIER(); }
+}
+RAW static int raw_differs(const void *a, const void *b, size_t n)
+{
+	const uint8_t *aa = a, *bb = b;
+	for (; n >= 8; n -= 8, aa += 8, bb += 8) { uint64_t x, y; __builtin_memcpy(&x, aa, 8); __builtin_memcpy(&y, bb, 8); BARRIER(); if (x != y) return 1; }
+	for (; n; n--) { if (*aa++ != *bb++) return 1; BARRIER(); }
+	return 0;
+}
+#else
+#define ASAN_BUILD 0
+#define raw_copy memcpy
+#define raw_fill memset
+#define raw_differs memcmp
+static volatile int asan_errors; static volatile uint64_t asan_total;
+#endif
+
+/* ------------------------------------------------------------------ constants */
+
+#define MAXN 9			/* largest buffer of the sequence / reinit families */
+#define RUNMAX 17		/* longest run of the run family */
+#define RUNCAP 36		/* largest buffer of the run family */
+#define MAXL 5			/* longest sequence of a depth-first family */
 #define MAXPATH 24
-#define MAXA 160
+#define MAXA 200
+#define WMAX 224		/* largest window a depth-first frame can hold */
+#define CANB 32			/* watched bytes before the buffer (placements R and A) */
+#define FULLMAX (65537 + 64)	/* largest buffer that is modelled byte by byte */
+#define EDGE 256		/* bytes watched at each edge of a larger buffer */
+#define CURW 32			/* bytes watched on each side of the item at the cursor of a larger buffer */
+#define MAXWT 7
+#define DCAN 16			/* canary bytes before (ASan build: and after) the destination array */
+#define SRCSMALL 64		/* source runs up to this length take their bytes from SRC[] */
+#define BIGRUN 65537		/* longest run with a real array */
+#define PATP 251		/* period of the background pattern */
+#define SCOPE_MAX 2147483647L	/* scope of the statement: total requested bytes below 2^31 */
+
+enum { PL_R, PL_L, PL_A };
+static const char place_chr[] = "RLA";
+static const char *place_name[] = { "ending flush against an inaccessible page", "starting right after an inaccessible page",
+				    "an exactly-sized region of a poisoned arena (AddressSanitizer)" };
+
+enum { FAM_RUNS = 25, FAM_SRC = 26, FAM_REINIT = 27, FAM_MID = 28, FAM_WIDE = 29, FAM_SEQ = 31 };	/* 0..23: sweep of that operation */
+
+/* ---------------------------------------------------------------------- arenas */
+
+typedef struct { uint8_t *lo, *hi; } arena_t;	/* accessible bytes [lo,hi) between inaccessible pages */
+static arena_t AR, ARS, ARD;			/* pack buffers, source arrays, destination arrays */
+static int HUGE_OK;				/* AR is large enough for a buffer of 2^31-1 bytes */
+
+static int arena_make(arena_t *a, size_t body, size_t tail)
+{
+	size_t pg = 4096;
+	body = (body + pg - 1) / pg * pg; tail = (tail + pg - 1) / pg * pg + pg;
+	uint8_t *m = mmap(NULL, pg + body + tail, PROT_NONE, MAP_PRIVATE | MAP_ANONYMOUS | MAP_NORESERVE, -1, 0);
+	if (m == MAP_FAILED) return -1;
+	if (mprotect(m + pg, body, PROT_READ | PROT_WRITE)) { munmap(m, pg + body + tail); return -1; }
+	a->lo = m + pg; a->hi = a->lo + body;
+	return 0;
+}
 
 /* ------------------------------------------------------------ operations */
 
 enum { K_P_BYTES, K_P_CHAR, K_P_S8, K_P_U8, K_P_S16BE, K_P_S16LE, K_P_U16BE, K_P_U16LE,
        K_P_S32BE, K_P_S32LE, K_P_U32BE, K_P_U32LE,
        K_U_BYTES, K_U_CHAR, K_U_S8, K_U_U8, K_U_S16BE, K_U_S16LE, K_U_U16BE, K_U_U16LE,
-       K_U_S32BE, K_U_S32LE, K_U_U32BE, K_U_U32LE, K_REWIND, K_KINDS };
+       K_U_S32BE, K_U_S32LE, K_U_U32BE, K_U_U32LE, K_REWIND, K_INIT, K_KINDS };
 
 enum { SGN_U, SGN_S, SGN_CHAR };
 typedef struct { const char *name; uint8_t pack, width, be, sgn, impl; } opinfo_t;
@@ -87,29 +318,35 @@ static opinfo_t ops[K_KINDS] = {
 	[K_U_U16BE] = { "unpack_u16be", 0, 2, 1, SGN_U, 0 }, [K_U_U16LE] = { "unpack_u16le", 0, 2, 0, SGN_U, 0 },
 	[K_U_S32BE] = { "unpack_s32be", 0, 4, 1, SGN_S, 0 }, [K_U_S32LE] = { "unpack_s32le", 0, 4, 0, SGN_S, 0 },
 	[K_U_U32BE] = { "unpack_u32be", 0, 4, 1, SGN_U, 0 }, [K_U_U32LE] = { "unpack_u32le", 0, 4, 0, SGN_U, 0 },
-	[K_REWIND] = { "rewind", 0, 0, 0, 0, 1 },	/* rf_pack_init on the same buffer */
+	[K_REWIND] = { "rewind", 0, 0, 0, 0, 1 },	/* rf_pack_init on the same buffer with the same size */
+	[K_INIT] = { "init", 0, 0, 0, 0, 1 },		/* rf_pack_init on the same base with the size given */
 };
 
 static void detect_implemented(void)
 {
-#define IMPL(k, f) ops[k].impl = ((f) != NULL)
-	IMPL(K_P_BYTES, rf_pack_bytes); IMPL(K_P_CHAR, rf_pack_char); IMPL(K_P_S8, rf_pack_s8); IMPL(K_P_U8, rf_pack_u8);
-	IMPL(K_P_S16BE, rf_pack_s16be); IMPL(K_P_S16LE, rf_pack_s16le); IMPL(K_P_U16BE, rf_pack_u16be); IMPL(K_P_U16LE, rf_pack_u16le);
-	IMPL(K_P_S32BE, rf_pack_s32be); IMPL(K_P_S32LE, rf_pack_s32le); IMPL(K_P_U32BE, rf_pack_u32be); IMPL(K_P_U32LE, rf_pack_u32le);
-	IMPL(K_U_BYTES, rf_unpack_bytes); IMPL(K_U_CHAR, rf_unpack_char); IMPL(K_U_S8, rf_unpack_s8); IMPL(K_U_U8, rf_unpack_u8);
-	IMPL(K_U_S16BE, rf_unpack_s16be); IMPL(K_U_S16LE, rf_unpack_s16le); IMPL(K_U_U16BE, rf_unpack_u16be); IMPL(K_U_U16LE, rf_unpack_u16le);
-	IMPL(K_U_S32BE, rf_unpack_s32be); IMPL(K_U_S32LE, rf_unpack_s32le); IMPL(K_U_U32BE, rf_unpack_u32be); IMPL(K_U_U32LE, rf_unpack_u32le);
-#undef IMPL
+	ops[K_P_BYTES].impl = HAS_P_BYTES; ops[K_P_CHAR].impl = HAS_P_CHAR; ops[K_P_S8].impl = HAS_P_S8; ops[K_P_U8].impl = HAS_P_U8;
+	ops[K_P_S16BE].impl = HAS_P_S16BE; ops[K_P_S16LE].impl = HAS_P_S16LE; ops[K_P_U16BE].impl = HAS_P_U16BE; ops[K_P_U16LE].impl = HAS_P_U16LE;
+	ops[K_P_S32BE].impl = HAS_P_S32BE; ops[K_P_S32LE].impl = HAS_P_S32LE; ops[K_P_U32BE].impl = HAS_P_U32BE; ops[K_P_U32LE].impl = HAS_P_U32LE;
+	ops[K_U_BYTES].impl = HAS_U_BYTES; ops[K_U_CHAR].impl = HAS_U_CHAR; ops[K_U_S8].impl = HAS_U_S8; ops[K_U_U8].impl = HAS_U_U8;
+	ops[K_U_S16BE].impl = HAS_U_S16BE; ops[K_U_S16LE].impl = HAS_U_S16LE; ops[K_U_U16BE].impl = HAS_U_U16BE; ops[K_U_U16LE].impl = HAS_U_U16LE;
+	ops[K_U_S32BE].impl = HAS_U_S32BE; ops[K_U_S32LE].impl = HAS_U_S32LE; ops[K_U_U32BE].impl = HAS_U_U32BE; ops[K_U_U32LE].impl = HAS_U_U32LE;
 }
 
-/* one call: operation + argument */
-typedef struct { uint8_t kind, sz, null; uint32_t arg; } act_t;
+/* one call: operation + argument (sz: run length of the byte operations, new size of init) */
+typedef struct { uint8_t kind, null; uint32_t sz; uint32_t arg; } act_t;
+
+static act_t mk_bytes(int kind, int null, uint32_t r) { act_t a = { (uint8_t)kind, (uint8_t)null, r, 0 }; return a; }
+static act_t mk_scalar(int kind, uint32_t v) { act_t a = { (uint8_t)kind, 0, 0, v }; return a; }
+static act_t mk_init(uint32_t n) { act_t a = { K_INIT, 0, n, 0 }; return a; }
+static act_t mk_rewind(void) { act_t a = { K_REWIND, 0, 0, 0 }; return a; }
+#define SKIP(r) mk_bytes(K_U_BYTES, 1, (r))
 
 static void act_describe(const act_t *a, vx_sb *sb)
 {
 	const opinfo_t *o = &ops[a->kind];
 	if (a->kind == K_P_BYTES) vx_sb_printf(sb, "pack_bytes(%s,%u)", a->null ? "NULL" : "src", a->sz);
 	else if (a->kind == K_U_BYTES) vx_sb_printf(sb, "unpack_bytes(%s,%u)", a->null ? "NULL" : "dst", a->sz);
+	else if (a->kind == K_INIT) vx_sb_printf(sb, "init(same base,%u)", a->sz);
 	else if (o->pack) vx_sb_printf(sb, "%s(0x%0*x)", o->name, o->width * 2, a->arg);
 	else vx_sb_printf(sb, "%s()", o->name);
 }
@@ -117,6 +354,7 @@ static void act_token(const act_t *a, vx_sb *sb)	/* replay form */
 {
 	const opinfo_t *o = &ops[a->kind];
 	if (a->kind == K_P_BYTES || a->kind == K_U_BYTES) vx_sb_printf(sb, "%s:%s:%u", o->name, a->null ? "null" : "buf", a->sz);
+	else if (a->kind == K_INIT) vx_sb_printf(sb, "init:%u", a->sz);
 	else if (o->pack) vx_sb_printf(sb, "%s:0x%x", o->name, a->arg);
 	else vx_sb_printf(sb, "%s", o->name);
 }
@@ -132,7 +370,10 @@ static int act_parse(const char *tok, act_t *a)
 			if (tok[l] != ':') return -1;
 			a->null = (0 == strncmp(tok + l + 1, "null", 4));
 			const char *c = strchr(tok + l + 1, ':'); if (!c) return -1;
-			a->sz = (uint8_t)strtoul(c + 1, NULL, 0);
+			a->sz = (uint32_t)strtoul(c + 1, NULL, 0);
+		} else if (k == K_INIT) {
+			if (tok[l] != ':') return -1;
+			a->sz = (uint32_t)strtoul(tok + l + 1, NULL, 0);
 		} else if (ops[k].pack) {
 			if (tok[l] != ':') return -1;
 			a->arg = (uint32_t)strtoul(tok + l + 1, NULL, 0);
@@ -144,64 +385,165 @@ static int act_parse(const char *tok, act_t *a)
 
 /* --------------------------------------------------- the case being executed */
 
-static uint8_t *areaR, *areaL;		/* AREA bytes ending at / starting after a PROT_NONE page */
-static int N, ALIGN;			/* buffer size, 0 = right-aligned, 1 = left-aligned */
-static uint8_t FILL[16];		/* initial buffer contents */
-static uint8_t *buf, *win; static int BOFF;	/* buf = win + BOFF */
+typedef struct { long off; size_t len; uint8_t *real, *shadow; } watch_t;	/* off: relative to the buffer start */
+
+static int FAM;				/* family (FAM_*, or the operation being swept) */
+static long N0;				/* size the first rf_pack_init of the case uses */
+static uint32_t CAP;			/* bytes of the region the buffer may occupy (largest size used in the case) */
+static int PLACE, CAN, PK0, SPARSE;	/* placement, watched bytes after the region, initial rf_pack_t (0 zeroed, 1 poisoned), CAP > FULLMAX */
+static uint8_t *buf;
+static watch_t WT[MAXWT]; static int NWT;
+static uint8_t shadow0[CANB + FULLMAX + 256], shadowx[MAXWT][EDGE + 2 * CURW + 128];
+static struct model { long cur, n; } M;	/* unbounded cursor, size given to the last rf_pack_init */
 static rf_pack_t pk;
-static struct model { uint8_t img[WIN]; long cur; } M;	/* expected window image + unbounded cursor */
-#define MB (M.img + BOFF)		/* expected buffer contents */
 static act_t path[MAXPATH]; static volatile int plen;	/* history incl. the call being executed */
 static const act_t *volatile cur_act;	/* the call being executed (the implicit rf_pack_init when plen == 0) */
 static const act_t act_init = { K_REWIND, 0, 0, 0 };
-static int PHASE;			/* 31 = sequences, otherwise kind being swept */
+static int implicit_init;		/* depth-first families: the history starts with an rf_pack_init that is not listed */
 static int64_t last_ret; static int last_fits;
 static int suppress;			/* iterative deepening: shallower levels were already reported */
-static int have_roundtrip; static uint32_t roundtrip_val;	/* for replay text */
+static int have_roundtrip; static uint32_t roundtrip_val; static int rt_bytes;	/* for replay text */
+static int give_up;			/* too many hangs / sanitizer reports: stop enumerating */
+static int prev_sparse;
 
-static uint8_t src_data[3] = { 0xd1, 0xe2, 0xf3 };
-static uint8_t dstarea[32];
-#define DST (dstarea + 8)
-
-static const uint8_t pattern[16] = { 0x81, 0x02, 0xf3, 0x7f, 0x80, 0xff, 0x00, 0x45, 0xc6, 0x19, 0, 0, 0, 0, 0, 0 };
+static uint8_t patT[PATP], pmaster[PATP + CANB + FULLMAX + 256 + 8];
+static const uint8_t SRC_DEFAULT[RUNMAX] = { 0xd1, 0x00, 0xf3, 0x7f, 0x80, 0xff, 0x01, 0x45, 0xc6, 0x19, 0x2a, 0x3b, 0x4c, 0x5d, 0x6e, 0x9f, 0xb0 };
+static uint8_t SRC[SRCSMALL]; static int src_custom;
+static uint8_t stail[SRCSMALL]; static int src_dirty;
+static long poke_off = -1; static int poke_len; static uint8_t poke_bytes[8];
+static uint8_t *last_dst; static uint32_t last_dst_len;
 
 enum { SIT_FIT, SIT_EXACT, SIT_OVERFLOW, SIT_STICKY, SIT_N };
 static const char *sitname[] = { "fits-with-slack", "exact-fit", "first-overflow", "after-overflow" };
 
-static uint64_t n_eval, n_sweep_calls, n_by_len[MAXPATH + 1], n_opsit[K_KINDS][SIT_N], n_null[2], n_roundtrips;
+static uint64_t n_eval, n_sweep_calls, n_by_len[MAXPATH + 1], n_opsit[K_KINDS][SIT_N], n_null[2], n_roundtrips, n_rt_bytes, n_fam_calls[32];
+static uint64_t max_run, max_cursor, max_size;
 static uint8_t crossing[MAXA][2][MAXN + 1][MAXN + 2]; static uint64_t n_crossings; static int cur_ai;
 static vx_set distinct; static uint64_t dcache[1 << 15];
 
-static void begin_case(int n, int align, const uint8_t *fill)
+static void pattern_init(void)
 {
-	N = n; ALIGN = align;
-	memcpy(FILL, fill, 16);
-	win = align == 0 ? areaR + AREA - WIN : areaL;
-	BOFF = align == 0 ? WIN - n : 0;
-	buf = win + BOFF;
-	memset(M.img, 0xC5, WIN); memcpy(MB, FILL, (size_t)n); M.cur = 0;
-	memcpy(win, M.img, WIN);
-	memset(&pk, 0, sizeof(pk));
-	plen = 0; have_roundtrip = 0;
+	static const uint8_t nice[10] = { 0x81, 0x02, 0xf3, 0x7f, 0x80, 0xff, 0x00, 0x45, 0xc6, 0x19 };
+	for (int i = 0; i < PATP; i++) patT[i] = i < 10 ? nice[i] : (uint8_t)(i * 73 + 17);
+	for (size_t i = 0; i < sizeof(pmaster); i++) pmaster[i] = patT[i % PATP];
+}
+static const uint8_t *pat_at(long off) { long m = off % PATP; if (m < 0) m += PATP; return pmaster + m; }
+
+#ifdef C12_ASAN
+static uint8_t *exposed_ptr; static size_t exposed_len; static long exposed_n = -1;
+static void asan_expose(long n)
+{
+	if (exposed_ptr) __asan_poison_memory_region(exposed_ptr, exposed_len);
+	__asan_unpoison_memory_region(buf, (size_t)n);
+	exposed_ptr = buf; exposed_len = (size_t)n; exposed_n = n;
+}
+static void asan_hide(void) { if (exposed_ptr) __asan_poison_memory_region(exposed_ptr, exposed_len); exposed_ptr = NULL; exposed_n = -1; }
+#else
+#define asan_expose(n) ((void)0)
+#define asan_hide() ((void)0)
+#define exposed_n M.n
+#endif
+
+static void set_window(int w, long off, size_t len)
+{
+	WT[w].off = off; WT[w].len = len; WT[w].real = buf + off; WT[w].shadow = w == 0 ? shadow0 : shadowx[w];
+	memcpy(WT[w].shadow, pat_at(off), len);
+	raw_copy(WT[w].real, WT[w].shadow, len);
 }
 
-static unsigned act_size(const act_t *a)
+/* expected memory: a write of the model */
+static void mwrite(long o, const uint8_t *d, size_t k)
+{
+	for (int w = 0; w < NWT; w++) {
+		long lo = o > WT[w].off ? o : WT[w].off, hi = o + (long)k, e = WT[w].off + (long)WT[w].len;
+		if (hi > e) hi = e;
+		if (lo >= hi) continue;
+		if (d) memcpy(WT[w].shadow + (lo - WT[w].off), d + (lo - o), (size_t)(hi - lo));
+		else memset(WT[w].shadow + (lo - WT[w].off), 0, (size_t)(hi - lo));
+	}
+}
+/* expected bytes [o,o+k) if one window holds them all */
+static const uint8_t *mptr(long o, size_t k)
+{
+	for (int w = 0; w < NWT; w++)
+		if (o >= WT[w].off && o + (long)k <= WT[w].off + (long)WT[w].len) return WT[w].shadow + (o - WT[w].off);
+	return NULL;
+}
+static uint8_t mbyte(long o)	/* outside every window the large mapping was never written: zero */
+{
+	const uint8_t *p = mptr(o, 1);
+	return p ? *p : 0;
+}
+static void mget(long o, int k, uint8_t *out)
+{
+	const uint8_t *p = mptr(o, (size_t)k);
+	for (int i = 0; i < k; i++) out[i] = p ? p[i] : mbyte(o + i);
+}
+
+static void begin_case(int fam, uint32_t cap, long n0, int place, int can, int pk0)
+{
+	if (prev_sparse) for (int w = 0; w < NWT; w++) raw_fill(WT[w].real, 0, WT[w].len);	/* back to the state of a fresh mapping */
+	FAM = fam; CAP = cap; PLACE = place; CAN = can; PK0 = pk0;
+	vx_lib_reset();
+	asan_hide();
+	SPARSE = cap > FULLMAX; prev_sparse = SPARSE;
+	buf = place == PL_R ? AR.hi - cap : place == PL_L ? AR.lo : AR.lo + 8192;
+	long before = place == PL_L ? 0 : CANB;
+	if (!SPARSE) { set_window(0, -before, (size_t)before + cap + (place == PL_R ? 0 : (size_t)can)); NWT = 1; }
+	else { set_window(0, -before, (size_t)before + EDGE); set_window(1, (long)cap - EDGE, EDGE + (place == PL_R ? 0 : 64)); NWT = 2; }
+	memset(&pk, pk0 ? 0xA5 : 0, sizeof(pk));
+	M.n = N0 = n0; M.cur = 0;
+	plen = 0; have_roundtrip = 0; rt_bytes = 0; implicit_init = 0; poke_off = -1; last_dst = NULL;
+	if (src_custom) { memcpy(SRC, SRC_DEFAULT, RUNMAX); src_custom = 0; }
+}
+static void poke(long off, const uint8_t *b, int len)	/* initial buffer contents other than the background pattern */
+{
+	poke_off = off; poke_len = len; memcpy(poke_bytes, b, (size_t)len);
+	mwrite(off, b, (size_t)len);
+	for (int w = 0; w < NWT; w++) raw_copy(WT[w].real, WT[w].shadow, WT[w].len);
+}
+
+/* larger buffers: watch the bytes around the item at the cursor as well */
+static void watch_cursor(long old, uint32_t k)
+{
+	long lo = old - CURW, hi = old + (long)(k > 64 ? 64 : k) + CURW;
+	if (buf + lo < AR.lo) lo = AR.lo - buf;
+	if (hi > AR.hi - buf) hi = AR.hi - buf;
+	for (int pass = 0; pass < 2; pass++)
+		for (int w = 0; w < NWT; w++) {
+			long eo = WT[w].off, ee = eo + (long)WT[w].len;
+			if (lo < ee && hi > eo) { if (lo >= eo) lo = ee; else hi = eo; }
+		}
+	if (lo >= hi || NWT >= MAXWT) return;
+	set_window(NWT, lo, (size_t)(hi - lo)); NWT++;
+}
+
+static uint32_t act_size(const act_t *a)
 {
 	return (a->kind == K_P_BYTES || a->kind == K_U_BYTES) ? a->sz : ops[a->kind].width;
 }
-static int situation(long old, unsigned k)
+static int situation(long old, uint32_t k)
 {
-	if (old > N) return SIT_STICKY;
-	if (old + (long)k > N) return SIT_OVERFLOW;
-	return old + (long)k == N ? SIT_EXACT : SIT_FIT;
+	if (old > M.n) return SIT_STICKY;
+	if (old + (long)k > M.n) return SIT_OVERFLOW;
+	return old + (long)k == M.n ? SIT_EXACT : SIT_FIT;
+}
+
+static void hexbytes(vx_sb *sb, const uint8_t *p, int n)
+{
+	for (int i = 0; i < n; i++) vx_sb_printf(sb, "%s%02x", i ? " " : "", p[i]);
+	if (!n) vx_sb_printf(sb, "(empty)");
 }
 
 static void replay_text(vx_sb *rep, vx_sb *hist)
 {
-	vx_sb_printf(rep, "n=%d\nalign=%c\nphase=%d\nfill=", N, ALIGN ? 'L' : 'R', PHASE);
-	for (int i = 0; i < N; i++) vx_sb_printf(rep, "%s%02x", i ? " " : "", FILL[i]);
-	if (have_roundtrip) vx_sb_printf(rep, "\nroundtrip=0x%x", roundtrip_val);
-	vx_sb_printf(rep, "\nops=");
+	vx_sb_printf(rep, "fam=%d\ncap=%u\nn=%ld\nplace=%c\ncan=%d\npk0=%d\nimplicit=%d\nasan=%d\n", FAM, CAP, N0,
+		     place_chr[PLACE], CAN, PK0, implicit_init, ASAN_BUILD);
+	if (poke_off >= 0) { vx_sb_printf(rep, "poke=%ld:", poke_off); hexbytes(rep, poke_bytes, poke_len); vx_sb_printf(rep, "\n"); }
+	if (src_custom) { vx_sb_printf(rep, "src="); hexbytes(rep, SRC, RUNMAX); vx_sb_printf(rep, "\n"); }
+	if (have_roundtrip) vx_sb_printf(rep, "roundtrip=0x%x\n", roundtrip_val);
+	if (rt_bytes) vx_sb_printf(rep, "rtbytes=1\n");
+	vx_sb_printf(rep, "ops=");
 	for (int i = 0; i < plen; i++) {
 		if (i) { vx_sb_printf(rep, " "); vx_sb_printf(hist, "; "); }
 		act_token(&path[i], rep); act_describe(&path[i], hist);
@@ -210,8 +552,8 @@ static void replay_text(vx_sb *rep, vx_sb *hist)
 	if (!plen) vx_sb_printf(hist, "(only rf_pack_init)");
 }
 
-static uint8_t seen_sig[16][K_KINDS + 1][2][SIT_N];
-static const char *clauses[16]; static int nclauses;
+static uint8_t seen_sig[24][K_KINDS + 1][2][SIT_N];
+static const char *clauses[24]; static int nclauses;
 
 /* Record a violation of `clause` by the last call of path[]. The signature is
  * deliberately coarse: clause + operation (+NULL variant) + where the call
@@ -223,11 +565,11 @@ static int fail(int sit, const char *clause, const char *fmt, ...)
 	if (suppress) return 0;
 	int ci = 0;
 	for (; ci < nclauses; ci++) if (!strcmp(clauses[ci], clause)) break;
-	if (ci == nclauses && nclauses < 16) clauses[nclauses++] = clause;
+	if (ci == nclauses && nclauses < 24) clauses[nclauses++] = clause;
 	const act_t *a = plen ? cur_act : NULL;
 	int kind = a ? a->kind : K_KINDS, nul = a ? a->null : 0;
-	if (ci < 16 && seen_sig[ci][kind][nul][sit]) { vx_viol_total++; return 0; }
-	if (ci < 16) seen_sig[ci][kind][nul][sit] = 1;
+	if (ci < 24 && seen_sig[ci][kind][nul][sit]) { vx_viol_total++; return 0; }
+	if (ci < 24) seen_sig[ci][kind][nul][sit] = 1;
 	vx_sb sig = {0}, rep = {0}, hist = {0};
 	va_list ap; va_start(ap, fmt); char *m = vx_vfmt(fmt, ap); va_end(ap);
 	vx_sb_printf(&sig, "C12|%s|", clause);
@@ -237,8 +579,8 @@ static int fail(int sit, const char *clause, const char *fmt, ...)
 	else vx_sb_printf(&sig, "%s", ops[a->kind].name);
 	vx_sb_printf(&sig, "|%s", sitname[sit]);
 	replay_text(&rep, &hist);
-	vx_violation(sig.s, rep.s, "%s: %s -- buffer of %d byte%s (%s-aligned to the guard page), history [%s]", clause, m,
-		     N, N == 1 ? "" : "s", ALIGN ? "left" : "right", hist.s);
+	vx_violation(sig.s, rep.s, "%s: %s -- buffer of %ld byte%s (%s%s), history [%s]", clause, m,
+		     M.n, M.n == 1 ? "" : "s", place_name[PLACE], PK0 ? "; the rf_pack_t held 0xa5 bytes before its first rf_pack_init" : "", hist.s);
 	free(m); free(sig.s); free(rep.s); free(hist.s);
 	return 0;
 }
@@ -260,11 +602,64 @@ static int64_t as_type(uint32_t raw, int width, int sgn)
 	return (int64_t)raw;
 }
 
-static void hexbytes(vx_sb *sb, const uint8_t *p, int n)
+/* source array of a pack_bytes call: its last byte lies flush against an inaccessible page */
+static uint8_t *src_prepare(uint32_t k)
 {
-	for (int i = 0; i < n; i++) vx_sb_printf(sb, "%s%02x", i ? " " : "", p[i]);
-	if (!n) vx_sb_printf(sb, "(empty)");
+	if (k <= SRCSMALL) { memcpy(ARS.hi - k, SRC, k); src_dirty = 1; }
+	else if (src_dirty) { memcpy(ARS.hi - SRCSMALL, stail, SRCSMALL); src_dirty = 0; }
+	return ARS.hi - k;
 }
+/* destination array of an unpack_bytes call: exactly k bytes (then the inaccessible page / poisoned bytes), canary before */
+static uint8_t *dst_prepare(uint32_t k)
+{
+#ifdef C12_ASAN
+	uint8_t *d = ARD.lo + 4096;
+	__asan_poison_memory_region(ARD.lo, (size_t)(ARD.hi - ARD.lo));
+	__asan_unpoison_memory_region(d, k);
+	raw_fill(d - DCAN, 0xA5, (size_t)k + 2 * DCAN);
+#else
+	uint8_t *d = ARD.hi - k;
+	memset(d - DCAN, 0xA5, (size_t)k + DCAN);
+#endif
+	last_dst = d; last_dst_len = k;
+	return d;
+}
+
+/* first byte (offset relative to the buffer start) where memory and expectation differ; differences inside the
+ * current buffer are reported in preference to differences outside */
+static int first_diff(long *where)
+{
+	for (int inside = 1; inside >= 0; inside--)
+		for (int w = 0; w < NWT; w++) {
+			if (!raw_differs(WT[w].real, WT[w].shadow, WT[w].len)) continue;
+			uint8_t tmp[64];
+			for (size_t i = 0; i < WT[w].len; i += sizeof(tmp)) {
+				size_t c = WT[w].len - i < sizeof(tmp) ? WT[w].len - i : sizeof(tmp);
+				raw_copy(tmp, WT[w].real + i, c);
+				for (size_t j = 0; j < c; j++) {
+					long o = WT[w].off + (long)(i + j);
+					if (tmp[j] != WT[w].shadow[i + j] && (!inside || (o >= 0 && o < M.n))) { *where = o; return 1; }
+				}
+			}
+		}
+	return 0;
+}
+
+#ifdef C12_ASAN
+static int asan_fail(int sit)
+{
+	const uint8_t *ad = (const uint8_t *)asan_addr;
+	if (asan_total > 400) give_up = 1;
+	if (ad >= AR.lo && ad < AR.hi)
+		return fail(sit, asan_write ? "outside-write" : "outside-read",
+			    "AddressSanitizer (%s): %s of %zu byte(s) starting at offset %ld relative to the buffer start; only the %ld bytes of the buffer are accessible",
+			    asan_kind, asan_write ? "write" : "read", (size_t)asan_size, (long)(ad - buf), M.n);
+	if (ad >= ARD.lo && ad < ARD.hi && asan_write && last_dst)
+		return fail(sit, "dst-outside", "AddressSanitizer (%s): write of %zu byte(s) at offset %ld relative to an output array of %u bytes",
+			    asan_kind, (size_t)asan_size, (long)(ad - last_dst), last_dst_len);
+	return fail(sit, "fault", "AddressSanitizer (%s): %s of %zu byte(s) outside every object of the call", asan_kind, asan_write ? "write" : "read", (size_t)asan_size);
+}
+#endif
 
 /* Execute one call on the real pack.c and on the model and compare.
  * 1 = agreed, 0 = violation recorded. `count` = this call is a new case. */
@@ -272,24 +667,32 @@ static int step_inner(const act_t *a, int count)
 {
 	const opinfo_t *o = &ops[a->kind];
 	const long old = M.cur;
-	const unsigned k = act_size(a);
+	const uint32_t k = act_size(a);
 	int64_t ret = 0;
 	int sit, fits;
+	uint8_t *sp = NULL, *dp = NULL;
+	uint8_t tmp[4];
 
 	cur_act = a;
-	if (a->kind == K_REWIND) {
+	if (a->kind == K_REWIND || a->kind == K_INIT) {
+		long n = a->kind == K_INIT ? (long)a->sz : M.n;
+		asan_expose(n); asan_errors = 0;
 		BARRIER();
-		rf_pack_init(&pk, buf, (unsigned)N);
+		rf_pack_init(&pk, buf, (unsigned)n);
 		BARRIER();
-		M.cur = 0; sit = N == 0 ? SIT_EXACT : SIT_FIT; fits = 1;
+		M.n = n; M.cur = 0; sit = n == 0 ? SIT_EXACT : SIT_FIT; fits = 1;
 		goto compare;
 	}
+	if (ASAN_BUILD && exposed_n != M.n) asan_expose(M.n);
 	sit = situation(old, k);
 	fits = sit <= SIT_EXACT;
-	if (a->kind == K_U_BYTES) memset(dstarea, 0xA5, sizeof(dstarea));
+	if (SPARSE) watch_cursor(old, k);
+	if (a->kind == K_P_BYTES && !a->null) sp = src_prepare(k);
+	if (a->kind == K_U_BYTES && !a->null) dp = dst_prepare(k);
+	asan_errors = 0;
 	BARRIER();
 	switch (a->kind) {
-	case K_P_BYTES: rf_pack_bytes(&pk, a->null ? NULL : src_data, a->sz); break;
+	case K_P_BYTES: rf_pack_bytes(&pk, sp, k); break;
 	case K_P_CHAR: rf_pack_char(&pk, (char)a->arg); break;
 	case K_P_S8: rf_pack_s8(&pk, (int8_t)a->arg); break;
 	case K_P_U8: rf_pack_u8(&pk, (int16_t)(a->arg & 0xff)); break;
@@ -301,7 +704,7 @@ static int step_inner(const act_t *a, int count)
 	case K_P_S32LE: rf_pack_s32le(&pk, (int32_t)a->arg); break;
 	case K_P_U32BE: rf_pack_u32be(&pk, a->arg); break;
 	case K_P_U32LE: rf_pack_u32le(&pk, a->arg); break;
-	case K_U_BYTES: rf_unpack_bytes(&pk, a->null ? NULL : DST, a->sz); break;
+	case K_U_BYTES: rf_unpack_bytes(&pk, dp, k); break;
 	case K_U_CHAR: ret = rf_unpack_char(&pk); break;
 	case K_U_S8: ret = rf_unpack_s8(&pk); break;
 	case K_U_U8: ret = rf_unpack_u8(&pk); break;
@@ -319,124 +722,123 @@ static int step_inner(const act_t *a, int count)
 	/* model */
 	M.cur = old + (long)k;
 	if (o->pack && fits) {
-		if (a->kind == K_P_BYTES) { for (unsigned i = 0; i < k; i++) MB[old + i] = a->null ? 0 : src_data[i]; }
-		else for (unsigned i = 0; i < k; i++) MB[old + i] = (uint8_t)(a->arg >> (8 * (o->be ? k - 1 - i : i)));
+		if (a->kind == K_P_BYTES) mwrite(old, a->null ? NULL : sp, k);
+		else { for (uint32_t i = 0; i < k; i++) tmp[i] = (uint8_t)(a->arg >> (8 * (o->be ? k - 1 - i : i))); mwrite(old, tmp, k); }
 	}
 
 compare:
 	last_ret = ret; last_fits = fits;
-	/* 1. + 2. buffer image and the bytes beside it (on the side without guard page) */
-	if (memcmp(win, M.img, WIN)) {
-		if (N && memcmp(buf, MB, (size_t)N)) {
-			int i = 0; while (buf[i] == MB[i]) i++;
-			vx_sb g = {0}, w = {0}; hexbytes(&g, buf, N); hexbytes(&w, MB, N);
-			const char *cl = (o->pack && fits && i >= old && i < old + (long)k) ? "layout"
-				: (o->pack && !fits) ? "overflow-transfer" : "stray-write";
-			fail(sit, cl, "buffer is [%s], expected [%s] (first difference at offset %d; cursor before the call %ld, item of %u byte%s)",
-			     g.s, w.s, i, old, k, k == 1 ? "" : "s");
-			free(g.s); free(w.s);
-			return 0;
+#ifdef C12_ASAN
+	if (asan_errors) return asan_fail(sit);
+#endif
+	/* 1. + 2. buffer image and the bytes beside it (on the side without inaccessible page) */
+	{
+		int differs = 0;
+		for (int w = 0; w < NWT; w++) if (raw_differs(WT[w].real, WT[w].shadow, WT[w].len)) { differs = 1; break; }
+		long d = 0;
+		if (differs && first_diff(&d)) {
+			if (d >= 0 && d < M.n) {
+				long lo = M.n <= 24 ? 0 : d - 4 < 0 ? 0 : d - 4, hi = M.n <= 24 ? M.n : lo + 16 > M.n ? M.n : lo + 16;
+				uint8_t g[24], wv[24];
+				raw_copy(g, buf + lo, (size_t)(hi - lo)); for (long i = lo; i < hi; i++) wv[i - lo] = mbyte(i);
+				vx_sb gs = {0}, ws = {0}; hexbytes(&gs, g, (int)(hi - lo)); hexbytes(&ws, wv, (int)(hi - lo));
+				const char *cl = (o->pack && fits && d >= old && d < old + (long)k) ? "layout"
+					: (o->pack && !fits) ? "overflow-transfer" : "stray-write";
+				fail(sit, cl, "buffer bytes %ld..%ld are [%s], expected [%s] (first difference at offset %ld; cursor before the call %ld, item of %u byte%s)",
+				     lo, hi - 1, gs.s, ws.s, d, old, k, k == 1 ? "" : "s");
+				free(gs.s); free(ws.s);
+				return 0;
+			}
+			return fail(sit, "outside-write", "byte at offset %ld relative to the buffer start was modified (buffer is %ld bytes)", d, M.n);
 		}
-		int i = 0; while (win[i] == M.img[i]) i++;
-		return fail(sit, "outside-write", "byte at offset %d relative to the buffer start was modified (buffer is %d bytes)", i - BOFF, N);
 	}
 	/* 3. returned value */
 	if (!o->pack && o->width) {
-		int64_t want = fits ? as_type(compose(MB + old, o->width, o->be), o->width, o->sgn) : 0;
+		mget(old, o->width, tmp);
+		int64_t want = fits ? as_type(compose(tmp, o->width, o->be), o->width, o->sgn) : 0;
 		if (ret != want)
 			return fail(sit, fits ? "value" : "overflow-value", "returned %lld (0x%llx), expected %lld (0x%llx)%s",
 				    (long long)ret, (unsigned long long)ret, (long long)want, (unsigned long long)want,
 				    fits ? "" : " because the item does not fit");
 	}
 	/* 4. destination array */
-	if (a->kind == K_U_BYTES) {
-		for (int i = 0; i < (int)sizeof(dstarea); i++) {
-			int j = i - 8;
-			uint8_t want = (a->null || j < 0 || j >= (int)k) ? 0xA5 : fits ? MB[old + j] : 0;
-			if (dstarea[i] != want) {
-				const char *cl = (a->null || j < 0 || j >= (int)k) ? "dst-outside" : fits ? "dst" : "overflow-dst";
-				return fail(sit, cl, "destination byte %d is 0x%02x, expected 0x%02x (%s)", j, dstarea[i], want,
-					    (a->null || j < 0 || j >= (int)k) ? "not part of the output array: must stay untouched"
-					    : fits ? "copy of the buffer" : "zero-fill because the item does not fit");
-			}
+	if (dp) {
+		uint8_t can[2 * DCAN]; int nc = ASAN_BUILD ? 2 * DCAN : DCAN;
+		raw_copy(can, dp - DCAN, DCAN);
+		if (ASAN_BUILD) raw_copy(can + DCAN, dp + k, DCAN);
+		for (int i = 0; i < nc; i++) if (can[i] != 0xA5) {
+			long j = i < DCAN ? (long)i - DCAN : (long)k + i - DCAN;
+			return fail(sit, "dst-outside", "destination byte %ld is 0x%02x, expected 0x%02x (not part of the output array of %u bytes: must stay untouched)", j, can[i], 0xA5, k);
+		}
+		const uint8_t *mp = fits ? mptr(old, k) : NULL;
+		for (uint32_t j = 0; j < k; j++) {
+			uint8_t want = fits ? (mp ? mp[j] : mbyte(old + (long)j)) : 0;
+			if (dp[j] != want)
+				return fail(sit, fits ? "dst" : "overflow-dst", "destination byte %u is 0x%02x, expected 0x%02x (%s)", j, dp[j], want,
+					    fits ? "copy of the buffer" : "zero-fill because the item does not fit");
 		}
 	}
 	/* 5. accounting */
 	{
 		int c = rf_pack_consumed(&pk), r = rf_pack_remaining(&pk);
 		if (c != M.cur) return fail(sit, "consumed", "rf_pack_consumed = %d, expected %ld", c, M.cur);
-		if (r != N - M.cur) return fail(sit, "remaining", "rf_pack_remaining = %d, expected %ld", r, N - M.cur);
+		if (r != M.n - M.cur) return fail(sit, "remaining", "rf_pack_remaining = %d, expected %ld", r, M.n - M.cur);
 	}
 
 	if (count) {
-		n_eval++; n_opsit[a->kind][sit]++;
-		if (PHASE == 31) n_by_len[plen]++; else n_sweep_calls++;
-		if (a->kind == K_P_BYTES || a->kind == K_U_BYTES) n_null[a->null]++;
-		if (PHASE == 31 && plen && sit == SIT_OVERFLOW && !crossing[cur_ai][ALIGN][N][old]) { crossing[cur_ai][ALIGN][N][old] = 1; n_crossings++; }
-		/* observation tuple, packed injectively into 64 bits */
-		uint32_t val = a->kind == K_REWIND ? 0 : o->pack ? (a->kind == K_P_BYTES ? 0 : (k == 4 ? a->arg : a->arg & ((1u << (8 * k)) - 1)))
-			: fits ? compose(MB + old, (int)k, 0) : 0;
-		uint64_t key = ((uint64_t)PHASE << 59) | ((uint64_t)a->kind << 54) | ((uint64_t)N << 50) | ((uint64_t)ALIGN << 49)
-			| ((uint64_t)(old & 63) << 43) | ((uint64_t)sit << 41) | ((uint64_t)a->sz << 39) | ((uint64_t)a->null << 38)
-			| ((uint64_t)(a == &act_init) << 37) | val;
-		uint64_t hk = vx_mix(key + 0x9e3779b97f4a7c15ULL);
+		n_eval++; n_opsit[a->kind][sit]++; n_fam_calls[FAM]++;
+		if (FAM == FAM_SEQ) n_by_len[plen]++; else if (FAM < 24) n_sweep_calls++;
+		if (a->kind == K_P_BYTES || a->kind == K_U_BYTES) { n_null[a->null]++; if (k > max_run) max_run = k; }
+		if ((uint64_t)M.cur > max_cursor) max_cursor = (uint64_t)M.cur;
+		if ((uint64_t)M.n > max_size) max_size = (uint64_t)M.n;
+		if (FAM == FAM_SEQ && plen && sit == SIT_OVERFLOW && !crossing[cur_ai][PLACE == PL_L][M.n][old]) { crossing[cur_ai][PLACE == PL_L][M.n][old] = 1; n_crossings++; }
+		/* observation tuple */
+		uint32_t val = 0;
+		if (a->kind == K_REWIND || a->kind == K_INIT) val = 0;
+		else if (o->pack) val = a->kind == K_P_BYTES ? 0 : (k == 4 ? a->arg : a->arg & ((1u << (8 * k)) - 1));
+		else if (fits && k) { int kk = k > 4 ? 4 : (int)k; mget(old, kk, tmp); val = compose(tmp, kk, 0); }
+		uint64_t key, hk; vx_h128 h;
+		if (FAM < 24 || FAM == FAM_SEQ) {	/* small fields: packed injectively into 64 bits */
+			key = ((uint64_t)FAM << 59) | ((uint64_t)a->kind << 54) | ((uint64_t)M.n << 50) | ((uint64_t)(PLACE == PL_L) << 49)
+				| ((uint64_t)(old & 63) << 43) | ((uint64_t)sit << 41) | ((uint64_t)a->sz << 39) | ((uint64_t)a->null << 38)
+				| ((uint64_t)(a == &act_init) << 37) | ((uint64_t)ASAN_BUILD << 36) | val;
+			hk = vx_mix(key + 0x9e3779b97f4a7c15ULL);
+			h.a = hk; h.b = key + 1;
+		} else {			/* (family, build, operation, NULL flag, run length / new size, argument or bytes read, buffer size, region, placement, initial rf_pack_t, cursor, position) */
+			vx_hasher hh; vx_h_init(&hh);
+			vx_h_u64(&hh, ((uint64_t)FAM << 56) | ((uint64_t)ASAN_BUILD << 55) | ((uint64_t)a->kind << 48) | ((uint64_t)a->null << 47) | ((uint64_t)sit << 45)
+				 | ((uint64_t)PLACE << 43) | ((uint64_t)PK0 << 42) | ((uint64_t)(a == &act_init) << 41) | a->sz);
+			vx_h_u64(&hh, ((uint64_t)CAP << 32) | (uint64_t)(uint32_t)M.n);
+			vx_h_u64(&hh, ((uint64_t)old << 32) | val);
+			h = vx_h_done(&hh); key = h.a ^ h.b; hk = h.a;
+		}
 		if (dcache[hk & (lengthof(dcache) - 1)] != key + 1) {
 			dcache[hk & (lengthof(dcache) - 1)] = key + 1;
-			vx_h128 h = { hk, key + 1 };
 			vx_set_add(&distinct, h);
 		}
 	}
 	return 1;
 }
 
-static void repair_canary(void)
+static void repair(void)
 {
-	memset(win, 0xC5, (size_t)BOFF); memset(buf + N, 0xC5, (size_t)(WIN - BOFF - N));
+	for (int w = 0; w < NWT; w++) raw_copy(WT[w].real, WT[w].shadow, WT[w].len);
 }
 static int step(const act_t *a, int count)
 {
 	int ok = step_inner(a, count);
-	if (!ok) repair_canary();	/* never blame a later call for damage already reported */
+	if (!ok) repair();	/* never blame a later call for damage already reported */
 	return ok;
 }
-
-/* ------------------------------------------------------- phase 1: sequences */
-
-static act_t alphabet[MAXA]; static int NA;
-
-static void build_alphabet(void)
-{
-	static const uint32_t v8[] = { 0, 1, 0x7f, 0x80, 0xff };
-	static const uint32_t v16[] = { 0, 1, 0x7f, 0x80, 0xff, 0x1234, 0x8000, 0xffff };
-	static const uint32_t v32[] = { 0, 1, 0x7f, 0x80, 0xff, 0x1234, 0x8000, 0xffff, 0x12345678, 0x80000000, 0xffffffff };
-	static const uint8_t runs[] = { 0, 1, 3 };
-	NA = 0;
-	for (int k = 0; k < K_KINDS; k++) {
-		if (!ops[k].impl) continue;
-		if (k == K_P_BYTES || k == K_U_BYTES) {
-			for (int nul = 0; nul < 2; nul++) for (unsigned r = 0; r < lengthof(runs); r++)
-				alphabet[NA++] = (act_t){ (uint8_t)k, runs[r], (uint8_t)nul, 0 };
-		} else if (ops[k].pack) {
-			const uint32_t *v = ops[k].width == 1 ? v8 : ops[k].width == 2 ? v16 : v32;
-			unsigned nv = ops[k].width == 1 ? lengthof(v8) : ops[k].width == 2 ? lengthof(v16) : lengthof(v32);
-			for (unsigned i = 0; i < nv; i++) alphabet[NA++] = (act_t){ (uint8_t)k, 0, 0, v[i] };
-		} else
-			alphabet[NA++] = (act_t){ (uint8_t)k, 0, 0, 0 };
-	}
-}
-
-static struct frame { struct model m; rf_pack_t pk; int next; } stk[MAXL + 1];
-static volatile int depth;
-static uint64_t cand_over, cand_read;
-#define NSPLIT 4			/* each (size, alignment) is split by (index of the LAST call) mod NSPLIT */
-static int SPLIT;
 
 static void sample_current(const char *what)
 {
 	vx_sb rep = {0}, hist = {0}, b = {0};
-	replay_text(&rep, &hist); hexbytes(&b, buf, N);
-	vx_sample("%s: n=%d %c-aligned: %s => last call returned %lld, consumed=%d remaining=%d buffer=[%s]", what, N,
-		  ALIGN ? 'L' : 'R', hist.s, (long long)last_ret, rf_pack_consumed(&pk), rf_pack_remaining(&pk), b.s);
+	uint8_t tmp[16]; int nb = M.n > 16 ? 16 : (int)M.n;
+	replay_text(&rep, &hist); raw_copy(tmp, buf, (size_t)nb); hexbytes(&b, tmp, nb);
+	vx_sample("%s: buffer of %ld bytes, placement %c%s: %s%s => last call returned %lld, consumed=%d remaining=%d buffer=[%s%s]", what, M.n,
+		  place_chr[PLACE], PK0 ? ", rf_pack_t poisoned before init" : "", implicit_init ? "init; " : "", hist.s, (long long)last_ret,
+		  rf_pack_consumed(&pk), rf_pack_remaining(&pk), b.s, M.n > 16 ? " ..." : "");
 	free(rep.s); free(hist.s); free(b.s);
 }
 
@@ -444,45 +846,70 @@ static const char *fault_text(void)
 {
 	return vx_fault_kind == SIGSEGV ? " (access outside the buffer: it lies flush against an inaccessible page)" : "";
 }
+static void note_fault(void)
+{
+	if (vx_fault_kind == VX_FAULT_HANG && vx_hangs_seen >= 3) give_up = 1;	/* every further hang costs a watchdog period */
+}
 
-/* all sequences of length exactly L (their proper prefixes are re-executed and
- * re-checked, but neither counted nor reported again: they were the leaves of
- * an earlier round). Returns 0 if stopped early. */
+/* ------------------------------------------- depth-first families (seq, runs, reinit) */
+
+typedef struct { const act_t *a; int n; } level_t;
+static struct {
+	int fam; uint32_t cap; long n0; int place, can, pk0, nsplit, split;
+	level_t lev[MAXL + 1];
+	int samples_left; uint64_t sample_at, cand; const char *name;
+} DF;
+static struct frame { uint8_t img[WMAX]; struct model m; rf_pack_t pk; int next; uint8_t *lib; } stk[MAXL + 1];
+static volatile int depth;
+
+static void frame_save(struct frame *f)
+{
+	memcpy(f->img, WT[0].shadow, WT[0].len); f->m = M; f->pk = pk;
+	if (vx_lib_size()) { if (!f->lib && !(f->lib = malloc(vx_lib_size()))) _exit(3); vx_lib_save(f->lib); }
+}
+static void frame_load(const struct frame *f)
+{
+	raw_copy(WT[0].real, f->img, WT[0].len); memcpy(WT[0].shadow, f->img, WT[0].len); M = f->m; pk = f->pk;
+	if (f->lib) vx_lib_restore(f->lib);
+}
+
+/* all sequences of length exactly L, call i taken from DF.lev[i] (their proper prefixes are re-executed and
+ * re-checked, but neither counted nor reported again: they were the leaves of an earlier round). Each partition takes
+ * the last calls whose index is DF.split modulo DF.nsplit. Returns 0 if stopped early. */
 static int dfs(int L)
 {
 	static uint64_t poll;
 	int ok;
-	begin_case(N, ALIGN, pattern);
+	begin_case(DF.fam, DF.cap, DF.n0, DF.place, DF.can, DF.pk0);
+	implicit_init = 1;
 	suppress = (L != 0);
 	/* the implicit rf_pack_init is a checked call of its own: the history of length 0 */
-	if (VX_TRY) { ok = step(&act_init, L == 0 && SPLIT == 0); VX_END; }
-	else { VX_END; fail(N ? SIT_FIT : SIT_EXACT, "fault", "%s during rf_pack_init", vx_fault_msg); ok = 0; }
+	if (VX_TRY) { ok = step(&act_init, L == 0 && DF.split == 0); VX_END; }
+	else { VX_END; fail(M.n ? SIT_FIT : SIT_EXACT, "fault", "%s during rf_pack_init", vx_fault_msg); note_fault(); ok = 0; }
 	suppress = 0;
 	if (!ok) return 0;		/* nothing below a broken init is meaningful */
 	if (L == 0) return 1;
-	stk[0].m = M; stk[0].pk = pk; stk[0].next = (L == 1) ? SPLIT : 0; depth = 0;
+	frame_save(&stk[0]); stk[0].next = (L == 1) ? DF.split : 0; depth = 0;
 	for (;;) {
 		if (VX_TRY) {
 			for (;;) {
 				struct frame *f = &stk[depth];
 				int leaf = (depth + 1 == L);
-				if (f->next >= NA) { if (depth == 0) break; depth--; continue; }
+				if (f->next >= DF.lev[depth].n) { if (depth == 0) break; depth--; continue; }
 				int ai = f->next;
-				f->next += leaf ? NSPLIT : 1;	/* leaves: only the last calls of this sub-partition */
-				memcpy(win, f->m.img, WIN); M = f->m; pk = f->pk;
-				path[depth] = alphabet[ai]; plen = depth + 1; cur_ai = ai;
+				f->next += leaf ? DF.nsplit : 1;	/* leaves: only the last calls of this sub-partition */
+				frame_load(f);
+				path[depth] = DF.lev[depth].a[ai]; plen = depth + 1; cur_ai = ai;
 				suppress = !leaf;
 				vx_opseq++;
 				ok = step(&path[depth], leaf);
 				if (!leaf) {
-					if (ok) { depth++; stk[depth].m = M; stk[depth].pk = pk; stk[depth].next = (depth + 1 == L) ? SPLIT : 0; }
+					if (ok) { depth++; frame_save(&stk[depth]); stk[depth].next = (depth + 1 == L) ? DF.split : 0; }
 					continue;
 				}
-				if (ok && L >= 3) {
-					if (M.cur > N && ++cand_over == 30011 && vx_want_sample()) sample_current("sequence");
-					if (last_fits && last_ret && ++cand_read == 30011 && vx_want_sample()) sample_current("sequence");
-				}
+				if (ok && DF.samples_left && ((DF.samples_left & 1) ? M.cur > M.n : (last_fits && (last_ret != 0 || DF.fam != FAM_SEQ))) && ++DF.cand == DF.sample_at) { DF.cand = 0; DF.samples_left--; if (vx_want_sample()) sample_current(DF.name); }
 				if ((++poll & 0xfffff) == 0 && (vx_deadline_passed() || vx_too_many_violations())) { VX_END; suppress = 0; return 0; }
+				if (give_up) { VX_END; suppress = 0; return 0; }
 			}
 			VX_END;
 			break;
@@ -491,8 +918,9 @@ static int dfs(int L)
 			VX_END;
 			suppress = (plen != L);
 			fail(situation(M.cur, act_size(&path[plen - 1])), "fault", "%s%s", vx_fault_msg, fault_text());
-			repair_canary();
-			if (vx_too_many_violations()) { suppress = 0; return 0; }
+			note_fault();
+			repair();
+			if (vx_too_many_violations() || give_up) { suppress = 0; return 0; }
 			/* go on with the next sibling: stk[depth].next is already advanced */
 		}
 	}
@@ -500,11 +928,90 @@ static int dfs(int L)
 	return 1;
 }
 
-/* ----------------------------------------------------- phase 2: value sweeps */
+/* the alphabets */
+static act_t seqA[MAXA]; static int NSEQ;	/* every implemented operation with boundary arguments, rewind */
+static act_t runA[MAXA]; static int NRUN;	/* byte operations with every run length 0..RUNMAX, rewind */
+static act_t midA[MAXA]; static int NMID;	/* byte operations with run lengths around the powers of two, one call of every scalar, rewind */
+static act_t probeA[16]; static int NPROBE;	/* short calls that show whether the state after the history is right */
+static act_t oneinit[1];
+
+static const uint32_t midV[] = { 0, 1, 2, 3, 127, 128, 129, 255, 256, 257, 32767, 32768, 32769, 65535, 65536, 65537 };
+static uint32_t wideV[100]; static int NWIDE;
+
+static int first_impl(int pack, int width)
+{
+	static const int pref[] = { K_P_U16LE, K_P_U32LE, K_P_U8, K_U_U16LE, K_U_U32LE, K_U_U8 };
+	for (unsigned i = 0; i < lengthof(pref); i++) if (ops[pref[i]].impl && ops[pref[i]].pack == pack && ops[pref[i]].width == width) return pref[i];
+	for (int k = 0; k < K_REWIND; k++) if (ops[k].impl && ops[k].pack == pack && ops[k].width == width) return k;
+	return -1;
+}
+
+static void build_alphabets(void)
+{
+	static const uint32_t v8[] = { 0, 1, 0x7f, 0x80, 0xff };
+	static const uint32_t v16[] = { 0, 1, 0x7f, 0x80, 0xff, 0x1234, 0x8000, 0xffff };
+	static const uint32_t v32[] = { 0, 1, 0x7f, 0x80, 0xff, 0x1234, 0x8000, 0xffff, 0x12345678, 0x80000000, 0xffffffff };
+	static const uint8_t runs[] = { 0, 1, 3 };
+	NSEQ = NRUN = NMID = NPROBE = 0;
+	for (int k = 0; k < K_KINDS; k++) {
+		if (!ops[k].impl || k == K_INIT) continue;
+		if (k == K_P_BYTES || k == K_U_BYTES) {
+			for (int nul = 0; nul < 2; nul++) {
+				for (unsigned r = 0; r < lengthof(runs); r++) seqA[NSEQ++] = mk_bytes(k, nul, runs[r]);
+				for (unsigned r = 0; r <= RUNMAX; r++) runA[NRUN++] = mk_bytes(k, nul, r);
+				for (unsigned r = 0; r < lengthof(midV); r++) midA[NMID++] = mk_bytes(k, nul, midV[r]);
+			}
+		} else if (ops[k].pack) {
+			const uint32_t *v = ops[k].width == 1 ? v8 : ops[k].width == 2 ? v16 : v32;
+			unsigned nv = ops[k].width == 1 ? lengthof(v8) : ops[k].width == 2 ? lengthof(v16) : lengthof(v32);
+			for (unsigned i = 0; i < nv; i++) seqA[NSEQ++] = mk_scalar(k, v[i]);
+			midA[NMID++] = mk_scalar(k, 0xa1b2c3d4u >> (8 * (4 - ops[k].width)));
+		} else {
+			seqA[NSEQ++] = mk_scalar(k, 0);
+			if (k != K_REWIND) midA[NMID++] = mk_scalar(k, 0);
+		}
+	}
+	runA[NRUN++] = mk_rewind(); midA[NMID++] = mk_rewind();
+	for (int pack = 1; pack >= 0; pack--) for (int w = 2; w; w = w == 2 ? 4 : w == 4 ? 1 : 0) {
+		int k = first_impl(pack, w);
+		if (k >= 0) probeA[NPROBE++] = mk_scalar(k, pack ? 0xa1b2c3d4u >> (8 * (4 - w)) : 0);
+	}
+	if (ops[K_P_BYTES].impl) { probeA[NPROBE++] = mk_bytes(K_P_BYTES, 0, 1); probeA[NPROBE++] = mk_bytes(K_P_BYTES, 1, 1); }
+	if (ops[K_U_BYTES].impl) { probeA[NPROBE++] = mk_bytes(K_U_BYTES, 0, 1); probeA[NPROBE++] = mk_bytes(K_U_BYTES, 1, 1); }
+	/* both sides of every power of two below 2^31, and the largest values of the scope */
+	uint32_t raw[100]; int n = 0;
+	raw[n++] = 0;
+	for (int e = 1; e <= 30; e++) { raw[n++] = (1u << e) - 1; raw[n++] = 1u << e; raw[n++] = (1u << e) + 1; }
+	raw[n++] = 0x7ffffffeu; raw[n++] = 0x7fffffffu;
+	NWIDE = 0;
+	for (int i = 0; i < n; i++) { int dup = 0; for (int j = 0; j < NWIDE; j++) if (wideV[j] == raw[i]) dup = 1; if (!dup) wideV[NWIDE++] = raw[i]; }
+	for (int i = 1; i < NWIDE; i++) for (int j = i; j > 0 && wideV[j - 1] > wideV[j]; j--) { uint32_t t = wideV[j]; wideV[j] = wideV[j - 1]; wideV[j - 1] = t; }
+}
+
+/* ------------------------------------------------- scripted families: helpers */
+
+static int run(act_t a, int count)
+{
+	if (plen >= MAXPATH) return 0;
+	path[plen] = a; plen++;
+	return step(&path[plen - 1], count);
+}
+
+static void guarded(void (*body)(void))
+{
+	if (VX_TRY) { body(); VX_END; }
+	else {
+		VX_END;
+		if (plen) fail(situation(M.cur, act_size(&path[plen - 1])), "fault", "%s%s", vx_fault_msg, fault_text());
+		else fail(SIT_FIT, "fault", "%s", vx_fault_msg);
+		note_fault();
+		repair();
+	}
+}
+
+/* ----------------------------------------------------- family: value sweeps */
 
 static struct { int kind, n, off, align; uint32_t v; } SP;
-
-static int run(act_t a) { path[plen] = a; plen++; return step(&path[plen - 1], 1); }
 
 static uint32_t nvals(int w) { return w == 1 ? 256u : w == 2 ? 65536u : 3u * 4 * 256 + (vx_thorough() ? 2u * 6 * 65536 : 0); }
 static uint32_t val(int w, uint32_t i)
@@ -527,17 +1034,17 @@ static uint32_t val(int w, uint32_t i)
 static void pack_case(void)
 {
 	const opinfo_t *o = &ops[SP.kind];
-	begin_case(SP.n, SP.align, pattern);
-	if (!run((act_t){ K_REWIND, 0, 0, 0 })) return;
-	if (SP.off && !run((act_t){ K_P_BYTES, 1, 1, 0 })) return;
-	if (!run((act_t){ (uint8_t)SP.kind, 0, 0, SP.v })) return;
+	begin_case(SP.kind, (uint32_t)SP.n, SP.n, SP.align, 32, 0);
+	if (!run(mk_rewind(), 1)) return;
+	if (SP.off && !run(mk_bytes(K_P_BYTES, 1, 1), 1)) return;
+	if (!run(mk_scalar(SP.kind, SP.v), 1)) return;
 	int fits = last_fits;
 	for (int u = K_U_CHAR; u <= K_U_U32LE; u++) {
 		if (!ops[u].impl || ops[u].width != o->width || (o->width > 1 && ops[u].be != o->be)) continue;
 		if (plen + 3 > MAXPATH) break;
-		if (!run((act_t){ K_REWIND, 0, 0, 0 })) return;
-		if (SP.off && !run((act_t){ K_U_BYTES, 1, 1, 0 })) return;
-		if (!run((act_t){ (uint8_t)u, 0, 0, 0 })) return;
+		if (!run(mk_rewind(), 1)) return;
+		if (SP.off && !run(SKIP(1), 1)) return;
+		if (!run(mk_scalar(u, 0), 1)) return;
 		if (fits) {
 			/* model-independent: the bits that went in come out */
 			uint32_t mask = o->width == 4 ? 0xffffffffu : (1u << (8 * o->width)) - 1;
@@ -556,42 +1063,133 @@ static void pack_case(void)
 static void unpack_case(void)
 {
 	const opinfo_t *o = &ops[SP.kind];
-	uint8_t fill[16];
-	memcpy(fill, pattern, 16);
-	for (int i = 0; i < o->width && SP.off + i < SP.n; i++) fill[SP.off + i] = (uint8_t)(SP.v >> (8 * i));
-	begin_case(SP.n, SP.align, fill);
-	if (!run((act_t){ K_REWIND, 0, 0, 0 })) return;
-	if (SP.off && !run((act_t){ K_U_BYTES, 1, 1, 0 })) return;
-	run((act_t){ (uint8_t)SP.kind, 0, 0, 0 });
+	uint8_t b[4]; int nb = 0;
+	begin_case(SP.kind, (uint32_t)SP.n, SP.n, SP.align, 32, 0);
+	for (int i = 0; i < o->width && SP.off + i < SP.n; i++) b[nb++] = (uint8_t)(SP.v >> (8 * i));
+	if (nb) poke(SP.off, b, nb);
+	if (!run(mk_rewind(), 1)) return;
+	if (SP.off && !run(SKIP(1), 1)) return;
+	run(mk_scalar(SP.kind, 0), 1);
 }
 
-static void guarded(void (*body)(void))
-{
-	if (VX_TRY) { body(); VX_END; }
-	else {
-		VX_END;
-		if (plen) fail(situation(M.cur, act_size(&path[plen - 1])), "fault", "%s%s", vx_fault_msg, fault_text());
-		else fail(SIT_FIT, "fault", "%s", vx_fault_msg);
-	}
-}
-
-static int sweep(int kind)
+static int sweep(int kind, int sample)
 {
 	const opinfo_t *o = &ops[kind];
 	int w = o->width;
 	/* exact fit, one byte short, exact fit at offset 1, slack at offset 1, one short at offset 1 */
 	const int lay[5][2] = { { w, 0 }, { w - 1, 0 }, { w + 1, 1 }, { w + 2, 1 }, { w, 1 } };
 	uint32_t nv = nvals(w);
-	PHASE = kind;
 	for (uint32_t i = 0; i < nv; i++) {
-		if ((i & 0xfff) == 0 && (vx_deadline_passed() || vx_too_many_violations())) return 0;
+		if ((i & 0xfff) == 0 && (vx_deadline_passed() || vx_too_many_violations() || give_up)) return 0;
 		for (int align = 0; align < 2; align++) for (int l = 0; l < 5; l++) {
 			SP.kind = kind; SP.v = val(w, i); SP.n = lay[l][0]; SP.off = lay[l][1]; SP.align = align;
 			guarded(o->pack ? pack_case : unpack_case);
-			if (i == nv / 3 && l == 2 && align == 0 && vx_want_sample()) sample_current("value sweep");
+			if (sample && i == nv / 3 && l == 2 && align == 0 && vx_want_sample()) sample_current("value sweep");
 		}
 	}
 	char nm[64]; snprintf(nm, sizeof(nm), "sweep_values_%s", o->name); vx_count(nm, nv);
+	return 1;
+}
+
+/* ---------------------------------- family: source arrays with every byte value */
+
+static struct { int r, pos, v, bg, off, slack, place; } SC;
+static uint64_t n_src_cases;
+
+static void src_case(void)
+{
+	uint32_t cap = (uint32_t)(SC.off + SC.r + SC.slack);
+	begin_case(FAM_SRC, cap, cap, SC.place, 32, 0);
+	for (int i = 0; i < RUNMAX; i++) SRC[i] = SC.bg ? (uint8_t)~SRC_DEFAULT[i] : SRC_DEFAULT[i];
+	SRC[SC.pos] = (uint8_t)SC.v; src_custom = 1; rt_bytes = 1;
+	if (!run(mk_init(cap), 1)) return;
+	if (SC.off && !run(mk_bytes(K_P_BYTES, 1, (uint32_t)SC.off), 1)) return;
+	if (!run(mk_bytes(K_P_BYTES, 0, (uint32_t)SC.r), 1)) return;
+	if (!ops[K_U_BYTES].impl) return;
+	if (!run(mk_rewind(), 1)) return;
+	if (SC.off && !run(SKIP((uint32_t)SC.off), 1)) return;
+	if (!run(mk_bytes(K_U_BYTES, 0, (uint32_t)SC.r), 1)) return;
+	n_rt_bytes++;
+	if (memcmp(last_dst, SRC, (size_t)SC.r))	/* model-independent: the bytes that went in come out */
+		fail(situation(SC.off, (uint32_t)SC.r), "roundtrip", "pack_bytes of %d bytes read back by unpack_bytes gives other bytes", SC.r);
+}
+
+static int src_family(int r, int place, int sample)
+{
+	for (int pos = 0; pos < r; pos++) for (int v = 0; v < 256; v++) {
+		if (vx_too_many_violations() || give_up || (v == 0 && vx_deadline_passed())) return 0;
+		for (int bg = 0; bg < 2; bg++) for (int off = 0; off < 2; off++) for (int slack = 0; slack < 2; slack++) {
+			SC.r = r; SC.pos = pos; SC.v = v; SC.bg = bg; SC.off = off; SC.slack = slack; SC.place = place;
+			guarded(src_case); n_src_cases++;
+			if (sample && pos == r / 2 && v == 0 && bg == 0 && off == 1 && slack == 0 && vx_want_sample()) sample_current("source bytes (0x00 in the middle of the run)");
+		}
+	}
+	return 1;
+}
+
+/* ------------------------- families: mid (around 2^7 .. 2^16, real arrays) and wide (every power of two) */
+
+static struct { uint32_t S; int place; act_t a1, a2, a3; int c0, c1, c2; } BC;
+static uint64_t n_mid_seq, n_wide_seq, n_wide_scope_skips, n_wide_touch_skips;
+
+static void big_case(void)
+{
+	begin_case(FAM, BC.S, BC.S, BC.place, 64, 0);
+	if (!run(mk_init(BC.S), BC.c0)) return;
+	if (!run(BC.a1, BC.c1)) return;
+	if (!run(BC.a2, BC.c2)) return;
+	run(BC.a3, 1);
+}
+
+static int mid_family(uint32_t S, int place, int sample)
+{
+	for (int i1 = 0; i1 < NMID; i1++) {
+		if (vx_deadline_passed() || vx_too_many_violations() || give_up) return 0;
+		for (int i2 = 0; i2 < NMID; i2++) for (int i3 = 0; i3 < NPROBE; i3++) {
+			FAM = FAM_MID; BC.S = S; BC.place = place; BC.a1 = midA[i1]; BC.a2 = midA[i2]; BC.a3 = probeA[i3];
+			BC.c2 = (i3 == 0); BC.c1 = BC.c2 && i2 == 0; BC.c0 = BC.c1 && i1 == 0;
+			guarded(big_case); n_mid_seq++;
+			if (sample && midA[i1].sz == 65535 && midA[i1].kind == K_P_BYTES && !midA[i1].null && midA[i2].sz == 2 && midA[i2].kind == K_U_BYTES && !midA[i2].null && i3 == 0 && vx_want_sample())
+				sample_current("mid (sizes, runs and cursors around 2^8 / 2^16)");
+		}
+	}
+	return 1;
+}
+
+/* does the model say that `a` at cursor c in a buffer of S bytes transfers more than the watched bytes at the cursor? */
+static int touches_too_much(uint32_t S, long c, const act_t *a)
+{
+	if (S <= FULLMAX) return 0;
+	if (a->kind != K_P_BYTES || a->sz <= 64) return 0;
+	return c <= (long)S && c + (long)a->sz <= (long)S;
+}
+
+static int wide_family(uint32_t S, int place, int sample)
+{
+	static uint32_t r2v[128];
+	static const uint32_t r2fix[] = { 0, 1, 2, 3, 255, 256, 257, 65535, 65536, 65537 };
+	if (S > FULLMAX) madvise(AR.lo, (size_t)(AR.hi - AR.lo), MADV_DONTNEED);
+	for (int i1 = 0; i1 < NWIDE; i1++) {
+		uint32_t r1 = wideV[i1];
+		if (vx_deadline_passed() || vx_too_many_violations() || give_up) return 0;
+		/* second advance: around 2^8 and 2^16, and landing 3, 2, 1 short of / exactly at / one past the end */
+		int n2 = 0;
+		for (unsigned i = 0; i < lengthof(r2fix); i++) r2v[n2++] = r2fix[i];
+		for (int d = -3; d <= 1; d++) { long v = (long)S - (long)r1 + d; if (v >= 0 && v <= SCOPE_MAX) r2v[n2++] = (uint32_t)v; }
+		if (vx_thorough()) for (int i = 0; i < NWIDE; i++) r2v[n2++] = wideV[i];
+		for (int i = 0; i < n2; i++) for (int j = 0; j < i; j++) if (r2v[j] == r2v[i]) { r2v[i--] = r2v[--n2]; break; }
+		for (int i2 = 0; i2 < n2; i2++) for (int k2 = 0; k2 < 2; k2++) for (int i3 = 0; i3 < NPROBE; i3++) {
+			uint32_t r2 = r2v[i2];
+			act_t a2 = k2 ? mk_bytes(K_P_BYTES, 1, r2) : SKIP(r2);
+			if (k2 && !ops[K_P_BYTES].impl) continue;
+			if ((long)r1 + (long)r2 + (long)act_size(&probeA[i3]) > SCOPE_MAX) { n_wide_scope_skips++; continue; }
+			if (touches_too_much(S, (long)r1, &a2)) { n_wide_touch_skips++; continue; }
+			FAM = FAM_WIDE; BC.S = S; BC.place = place; BC.a1 = SKIP(r1); BC.a2 = a2; BC.a3 = probeA[i3];
+			BC.c2 = (i3 == 0); BC.c1 = BC.c2 && i2 == 0 && k2 == 0; BC.c0 = BC.c1 && i1 == 0;
+			guarded(big_case); n_wide_seq++;
+			if (sample && r1 == 0x40000000u && r2 == 65536 && k2 == 0 && i3 == 0 && vx_want_sample()) sample_current("wide (2 GiB mapping)");
+		}
+	}
 	return 1;
 }
 
@@ -600,17 +1198,13 @@ static int sweep(int kind)
 static void do_replay(const char *rp)
 {
 	const char *f;
-	uint8_t fill[16]; memcpy(fill, pattern, 16);
-	int n = (f = vx_replay_field(rp, "n")) ? atoi(f) : 0;
-	int align = (f = vx_replay_field(rp, "align")) && f[0] == 'L';
-	PHASE = (f = vx_replay_field(rp, "phase")) ? atoi(f) : 31;
-	if ((f = vx_replay_field(rp, "fill"))) {
-		const char *p = f; int i = 0;
-		while (*p && i < 16) { char *e; unsigned long v = strtoul(p, &e, 16); if (e == p) break; fill[i++] = (uint8_t)v; p = e; }
-	}
-	int rt = 0; uint32_t rtv = 0;
-	if ((f = vx_replay_field(rp, "roundtrip"))) { rt = 1; rtv = (uint32_t)strtoul(f, NULL, 0); }
-	if (n < 0 || n > MAXN) { fprintf(stderr, "c12: bad replay (n)\n"); return; }
+#define FIELD(k, d) ((f = vx_replay_field(rp, k)) ? strtol(f, NULL, 0) : (d))
+	int fam = (int)FIELD("fam", FAM_SEQ);
+	long cap = FIELD("cap", 0), n = FIELD("n", cap), can = FIELD("can", 32), pk0 = FIELD("pk0", 0), implicit = FIELD("implicit", 0);
+	long asan = FIELD("asan", 0);
+	int place = (f = vx_replay_field(rp, "place")) ? (f[0] == 'L' ? PL_L : f[0] == 'A' ? PL_A : PL_R) : PL_R;
+	if (asan != ASAN_BUILD || (place == PL_A) != ASAN_BUILD) { fprintf(stderr, "c12: this replay belongs to the %s build\n", asan ? "AddressSanitizer" : "plain"); return; }
+	if (fam < 0 || fam > 31 || cap < 0 || cap > (HUGE_OK ? SCOPE_MAX : FULLMAX) || n < 0 || n > cap || can < 0 || can > 128) { fprintf(stderr, "c12: bad replay (geometry)\n"); return; }
 	const char *p = strstr(rp, "\nops=");
 	if (!p) { fprintf(stderr, "c12: bad replay (ops)\n"); return; }
 	p += 5;
@@ -619,13 +1213,29 @@ static void do_replay(const char *rp)
 		while (*p == ' ') p++;
 		if (!*p || *p == '\n') break;
 		if (act_parse(p, &acts[na]) || !ops[acts[na].kind].impl) { fprintf(stderr, "c12: replay names an operation that is not implemented\n"); return; }
+		if (acts[na].kind == K_INIT && acts[na].sz > (uint32_t)cap) { fprintf(stderr, "c12: bad replay (init beyond the region)\n"); return; }
 		na++;
 		p += strcspn(p, " \n");
 	}
-	begin_case(n, align, fill);
+	begin_case(fam, (uint32_t)cap, n, place, (int)can, (int)pk0);
+	if (!SPARSE && WT[0].len > sizeof(shadow0)) { fprintf(stderr, "c12: bad replay (window)\n"); return; }
+	implicit_init = (int)implicit;
+	if ((f = vx_replay_field(rp, "src"))) {
+		const char *q = f; int i = 0;
+		while (*q && i < RUNMAX) { char *e; unsigned long v = strtoul(q, &e, 16); if (e == q) break; SRC[i++] = (uint8_t)v; q = e; }
+		src_custom = 1;
+	}
+	if ((f = vx_replay_field(rp, "poke"))) {
+		char *e; long off = strtol(f, &e, 10); uint8_t b[8]; int nb = 0;
+		if (*e == ':') { const char *q = e + 1; while (*q && nb < 8) { char *e2; unsigned long v = strtoul(q, &e2, 16); if (e2 == q) break; b[nb++] = (uint8_t)v; q = e2; } }
+		if (nb && off >= 0 && off + nb <= cap) poke(off, b, nb);
+	}
+	int rt = 0; uint32_t rtv = 0;
+	if ((f = vx_replay_field(rp, "roundtrip"))) { rt = 1; rtv = (uint32_t)strtoul(f, NULL, 0); }
+	rt_bytes = (int)FIELD("rtbytes", 0);
+#undef FIELD
 	if (VX_TRY) {
-		/* phase 1 histories start with the implicit init; sweep histories list it explicitly */
-		if (PHASE == 31 && !step(&act_init, 0)) { VX_END; return; }
+		if (implicit_init && !step(&act_init, 0)) { VX_END; return; }
 		for (int i = 0; i < na; i++) {
 			path[plen] = acts[i]; plen++;
 			if (!step(&path[plen - 1], 1)) { VX_END; return; }
@@ -641,16 +1251,24 @@ static void do_replay(const char *rp)
 				     pi >= 0 ? ops[acts[pi].kind].name : "?", rtv & mask, o->name, (uint32_t)last_ret & mask);
 			}
 		}
+		if (rt_bytes && na && acts[na - 1].kind == K_U_BYTES && last_dst && acts[na - 1].sz <= RUNMAX && memcmp(last_dst, SRC, acts[na - 1].sz))
+			fail(situation(M.cur - (long)acts[na - 1].sz, acts[na - 1].sz), "roundtrip", "pack_bytes of %u bytes read back by unpack_bytes gives other bytes", acts[na - 1].sz);
 		VX_END;
 		printf("replay: %d call(s) executed without disagreement, consumed=%d remaining=%d\n", na, rf_pack_consumed(&pk), rf_pack_remaining(&pk));
 	} else {
 		VX_END;
 		if (plen) fail(situation(M.cur, act_size(&path[plen - 1])), "fault", "%s%s", vx_fault_msg, fault_text());
-		else fail(N ? SIT_FIT : SIT_EXACT, "fault", "%s during rf_pack_init", vx_fault_msg);
+		else fail(M.n ? SIT_FIT : SIT_EXACT, "fault", "%s during rf_pack_init", vx_fault_msg);
 	}
 }
 
 /* --------------------------------------------------------------------- main */
+
+static void df_config(int fam, uint32_t cap, long n0, int place, int can, int pk0, int nsplit, int split)
+{
+	DF.fam = fam; DF.cap = cap; DF.n0 = n0; DF.place = place; DF.can = can; DF.pk0 = pk0; DF.nsplit = nsplit; DF.split = split;
+	DF.samples_left = 0; DF.cand = 0;
+}
 
 int main(int argc, char **argv)
 {
@@ -658,9 +1276,21 @@ int main(int argc, char **argv)
 	vx_install_handlers();
 	vx_watchdog(2.0);
 	detect_implemented();
-	build_alphabet();
-	areaR = vx_guard_alloc(AREA, 1);
-	areaL = vx_guard_alloc(AREA, 0);
+	pattern_init();
+	build_alphabets();
+	memcpy(SRC, SRC_DEFAULT, RUNMAX);
+	for (int i = RUNMAX; i < SRCSMALL; i++) SRC[i] = (uint8_t)(i * 37 + 11);
+#ifdef C12_ASAN
+	if (arena_make(&AR, 8192 + FULLMAX + 256 + 8192, 4096) || arena_make(&ARD, 4096 + BIGRUN + 4096, 4096)) { perror("c12: mmap"); return 3; }
+	__asan_poison_memory_region(AR.lo, (size_t)(AR.hi - AR.lo));
+#else
+	if (arena_make(&AR, ((size_t)1 << 31) + 131072, (size_t)1 << 31) == 0) HUGE_OK = 1;
+	else if (arena_make(&AR, 2 * FULLMAX + 16384, 4096)) { perror("c12: mmap"); return 3; }
+	if (arena_make(&ARD, DCAN + BIGRUN, 4096)) { perror("c12: mmap"); return 3; }
+#endif
+	if (arena_make(&ARS, BIGRUN + SRCSMALL, 4096)) { perror("c12: mmap"); return 3; }
+	for (uint8_t *q = ARS.lo; q < ARS.hi; q++) *q = (uint8_t)((q - ARS.lo) * 89 + 7);
+	memcpy(stail, ARS.hi - SRCSMALL, SRCSMALL);
 	vx_set_init(&distinct, 16);
 
 	char *rp = vx_read_replay();
@@ -670,47 +1300,143 @@ int main(int argc, char **argv)
 		vx_sb in = {0}, out = {0};
 		for (int k = 0; k < K_REWIND; k++) vx_sb_printf(ops[k].impl ? &in : &out, " %s", ops[k].name);
 		vx_note("alphabet = operations pack.c implements:%s, plus rewind (= rf_pack_init on the same buffer); %d actions with arguments",
-			in.s ? in.s : " (none)", NA);
+			in.s ? in.s : " (none)", NSEQ);
 		if (out.s) vx_note("declared in pack.h but not implemented in pack.c, hence not exercised:%s", out.s);
 		free(in.s); free(out.s);
 	}
 
-	const int Lmax = vx_thorough() ? 5 : 4;
+	static const int places_plain[] = { PL_R, PL_L }, places_asan[] = { PL_A };
+	const int *places = ASAN_BUILD ? places_asan : places_plain;
+	const int nplaces = ASAN_BUILD ? 1 : 2;
+	const int thorough = vx_thorough() && !ASAN_BUILD;	/* the AddressSanitizer part is the same in both tiers */
+	const int bytes_ok = ops[K_P_BYTES].impl && ops[K_U_BYTES].impl;
 	int complete = 1;
-	/* phase 1: partition p = ((size * 2 + alignment) * NSPLIT + class of the last call). Splitting by the LAST
-	 * call keeps the observation tuples of different partitions disjoint (the tuple names the call), so the sum
-	 * of the per-worker distinct counts is exact; the price is that proper prefixes are executed NSPLIT times. */
-	for (int p = 0; p < (MAXN + 1) * 2 * NSPLIT; p++) {
-		if (!vx_mine((uint64_t)p)) continue;
-		SPLIT = p % NSPLIT; N = p / NSPLIT / 2; ALIGN = (p / NSPLIT) % 2; PHASE = 31; cand_over = cand_read = 0;
-		int done = 0;
-		for (int L = 0; L <= Lmax; L++) { if (!dfs(L)) break; done = L; }
-		vx_min("seq_len_completed", (uint64_t)done);
-		if (done < Lmax) complete = 0;
-		vx_count("seq_partitions(size,alignment,last-call-class)", 1);
+	uint64_t part = 0;
+	char nm[96];
+#define SAMPLENAME(s) (ASAN_BUILD ? "AddressSanitizer build, " s : s)
+
+	/* ---- seq: partition = (size, placement, class of the last call). Splitting by the LAST call keeps the observation
+	 * tuples of different partitions disjoint (the tuple names the call), so the sum of the per-worker distinct counts is
+	 * exact; the price is that proper prefixes are executed once per class. */
+	{
+		const int Lmax = thorough ? 5 : 4, nsplit = 4;
+		for (int cap = 0; cap <= MAXN; cap++) for (int pi = 0; pi < nplaces; pi++) for (int split = 0; split < nsplit; split++) {
+			if (!vx_mine(part++)) continue;
+			df_config(FAM_SEQ, (uint32_t)cap, cap, places[pi], 32, 0, nsplit, split);
+			for (int l = 0; l <= MAXL; l++) { DF.lev[l].a = seqA; DF.lev[l].n = NSEQ; }
+			if (cap == 6 && pi == 0 && split == 0) { DF.samples_left = ASAN_BUILD ? 1 : 2; DF.sample_at = 30011; DF.name = SAMPLENAME("sequence"); }
+			int done = 0;
+			for (int L = 0; L <= Lmax; L++) { if (!dfs(L)) break; done = L; }
+			vx_min("seq_len_completed", (uint64_t)done);
+			if (done < Lmax) complete = 0;
+			vx_count("seq_partitions(size,placement,last-call-class)", 1);
+		}
 	}
-	/* phase 2: one partition per implemented scalar operation */
-	for (int k = 0; k < K_REWIND; k++) {
-		if (!ops[k].impl || !ops[k].width) continue;
-		if (!vx_mine((uint64_t)((MAXN + 1) * 2 * NSPLIT + k))) continue;
-		if (!sweep(k)) complete = 0;
-		vx_count("sweep_partitions(operation)", 1);
+	/* ---- value sweeps: one partition per implemented scalar operation */
+	if (!ASAN_BUILD && bytes_ok)
+		for (int k = 0; k < K_REWIND; k++) {
+			if (!ops[k].impl || !ops[k].width) continue;
+			if (!vx_mine(part++)) continue;
+			if (!sweep(k, k == first_impl(1, 2) || k == first_impl(0, 4))) complete = 0;
+			vx_count("sweep_partitions(operation)", 1);
+		}
+	/* ---- runs: every run length 0..RUNMAX */
+	if (bytes_ok) {
+		const int Lmax = thorough ? 4 : 3, nsplit = 4;
+		for (int cap = 0; cap <= RUNCAP; cap++) for (int pi = 0; pi < nplaces; pi++) for (int split = 0; split < nsplit; split++) {
+			if (!vx_mine(part++)) continue;
+			df_config(FAM_RUNS, (uint32_t)cap, cap, places[pi], 96, 0, nsplit, split);
+			for (int l = 0; l <= MAXL; l++) { DF.lev[l].a = runA; DF.lev[l].n = NRUN; }
+			if (cap == 20 && pi == 0 && split == 0) { DF.samples_left = ASAN_BUILD ? 1 : 2; DF.sample_at = 7001; DF.name = SAMPLENAME("runs (every length 0..17)"); }
+			int done = 0;
+			for (int L = 0; L <= Lmax; L++) { if (!dfs(L)) break; done = L; }
+			vx_min("runs_len_completed", (uint64_t)done);
+			if (done < Lmax) complete = 0;
+			vx_count("runs_partitions(size,placement,last-call-class)", 1);
+		}
+	}
+	/* ---- src: every byte value at every position of the source array */
+	if (!ASAN_BUILD && bytes_ok)
+		for (int r = 1; r <= RUNMAX; r++) for (int pi = 0; pi < nplaces; pi++) {
+			if (!vx_mine(part++)) continue;
+			if (!src_family(r, places[pi], r == 5 && pi == 0)) complete = 0;
+			vx_count("src_partitions(run length,placement)", 1);
+		}
+	/* ---- reinit: rf_pack_init again with every other size on the same base */
+	for (int cap = 0; cap <= MAXN; cap++) for (int pi = 0; pi < nplaces; pi++) for (int pk0 = 0; pk0 < 2; pk0++) {
+		if (!vx_mine(part++)) continue;
+		for (int n1 = 0; n1 <= cap; n1++) {
+			int first = 1;
+			for (int n2 = 0; n2 <= cap; n2++) {
+				if (n1 != cap && n2 != cap) continue;
+				df_config(FAM_REINIT, (uint32_t)cap, n1, places[pi], 32, pk0, 1, 0);
+				oneinit[0] = mk_init((uint32_t)n2);
+				DF.lev[0].a = seqA; DF.lev[0].n = NSEQ; DF.lev[1].a = oneinit; DF.lev[1].n = 1;
+				DF.lev[2].a = seqA; DF.lev[2].n = NSEQ; DF.lev[3].a = seqA; DF.lev[3].n = NSEQ;
+				if (cap == 8 && n1 == 8 && n2 == 3 && pi == 0 && pk0 == 1) { DF.samples_left = ASAN_BUILD ? 1 : 2; DF.sample_at = 1501; DF.name = SAMPLENAME("re-initialisation with another size"); }
+				for (int L = first ? 0 : 2; L <= 4; L++) if (!dfs(L)) { complete = 0; break; }
+				first = 0;
+				if (thorough && pk0 == 0) {	/* two calls before the re-initialisation */
+					df_config(FAM_REINIT, (uint32_t)cap, n1, places[pi], 32, 0, 1, 0);
+					DF.lev[0].a = seqA; DF.lev[0].n = NSEQ; DF.lev[1].a = seqA; DF.lev[1].n = NSEQ; DF.lev[2].a = oneinit; DF.lev[2].n = 1;
+					DF.lev[3].a = seqA; DF.lev[3].n = NSEQ; DF.lev[4].a = seqA; DF.lev[4].n = NSEQ;
+					for (int L = 3; L <= 5; L++) if (!dfs(L)) { complete = 0; break; }
+				}
+				vx_count("reinit_size_pairs(old size,new size,placement,initial rf_pack_t)", 1);
+			}
+		}
+	}
+	/* ---- mid: sizes, runs and cursors on both sides of 2^7, 2^8, 2^15, 2^16 with real arrays */
+	if (bytes_ok)
+		for (unsigned si = 0; si < lengthof(midV); si++) for (int pi = 0; pi < nplaces; pi++) {
+			if (!vx_mine(part++)) continue;
+			if (!mid_family(midV[si], places[pi], midV[si] == 65537 && pi == nplaces - 1)) complete = 0;
+			vx_count("mid_partitions(size,placement)", 1);
+		}
+	/* ---- wide: both sides of every power of two up to the scope limit, inside the 2 GiB mapping */
+	if (!ASAN_BUILD && bytes_ok) {
+		for (int si = 0; si < NWIDE; si++) for (int pi = 0; pi < nplaces; pi++) {
+			if (!vx_mine(part++)) continue;
+			if (wideV[si] > FULLMAX && !HUGE_OK) { complete = 0; vx_note("no 2 GiB mapping available: buffer sizes above %d skipped", FULLMAX); continue; }
+			if (!wide_family(wideV[si], places[pi], (wideV[si] == 0x7fffffffu && pi == 1) || (wideV[si] == 65536 && pi == 0))) complete = 0;
+			vx_count("wide_partitions(size,placement)", 1);
+		}
 	}
 	if (vx_too_many_violations()) vx_note("enumeration stopped early: violation table full");
+	if (give_up) { complete = 0; vx_note("enumeration stopped early: repeated endless loops or sanitizer reports"); }
 
 	vx_and("exhaustive", complete);
 	vx_count("evaluations", n_eval);
 	vx_count("distinct", distinct.n);
 	vx_count("roundtrips_checked", n_roundtrips);
+	vx_count("roundtrips_checked_bytes", n_rt_bytes);
 	vx_count("sweep_calls", n_sweep_calls);
 	vx_count("overflow_crossings_distinct(action,alignment,size,cursor)", n_crossings);
-	vx_count("scope_guard_skips", 0);	/* total requested bytes never approach 2^31 here */
-	vx_max("alphabet_actions", (uint64_t)NA);
-	for (int l = 0; l <= MAXL; l++) if (n_by_len[l]) { char nm[64]; snprintf(nm, sizeof(nm), "sequences_len%d", l); vx_count(nm, n_by_len[l]); }
+	vx_count("calls_family_seq", n_fam_calls[FAM_SEQ]);
+	vx_count("calls_family_runs", n_fam_calls[FAM_RUNS]);
+	vx_count("calls_family_src", n_fam_calls[FAM_SRC]);
+	vx_count("calls_family_reinit", n_fam_calls[FAM_REINIT]);
+	vx_count("calls_family_mid", n_fam_calls[FAM_MID]);
+	vx_count("calls_family_wide", n_fam_calls[FAM_WIDE]);
+	vx_count("src_cases", n_src_cases);
+	vx_count("mid_sequences", n_mid_seq);
+	vx_count("wide_sequences", n_wide_seq);
+	vx_count("scope_guard_skips", n_wide_scope_skips);	/* wide: histories that would request 2^31 bytes or more */
+	vx_count("wide_touch_guard_skips", n_wide_touch_skips);	/* wide: long zero runs that fit a buffer too large to be modelled byte by byte */
+	vx_max("alphabet_actions", (uint64_t)NSEQ);
+	vx_max("alphabet_actions_runs", (uint64_t)NRUN);
+	vx_max("alphabet_actions_mid", (uint64_t)NMID);
+	vx_max("probe_actions", (uint64_t)NPROBE);
+	vx_max("wide_menu_values", (uint64_t)NWIDE);
+	vx_max("longest_run", max_run);
+	vx_max("largest_cursor", max_cursor);
+	vx_max("largest_buffer", max_size);
+	vx_count("sanitizer_reports", asan_total);
+	for (int l = 0; l <= MAXL; l++) if (n_by_len[l]) { snprintf(nm, sizeof(nm), "sequences_len%d", l); vx_count(nm, n_by_len[l]); }
 	for (int k = 0; k < K_KINDS; k++) {
 		if (!ops[k].impl) continue;
 		for (int s = 0; s < SIT_N; s++) {
-			char nm[64]; snprintf(nm, sizeof(nm), "op_%s.%s", ops[k].name, sitname[s]);
+			snprintf(nm, sizeof(nm), "op_%s.%s", ops[k].name, sitname[s]);
 			vx_count(nm, n_opsit[k][s]);
 		}
 	}
